@@ -23,6 +23,14 @@ import (
 // Everything is read from go/ssa of package pkg/blob: the package initializer
 // (the tables), the digest types' methods, and the few functions that consult
 // the tables. No source text, names of locals or positions are matched.
+//
+// Function anchors are the exported entry points (Ref.String, MarshalBinary,
+// Parse, ParseKnown, ParseBytes, UnmarshalBinary, IsSupported, NewHash, Less,
+// Digest) and the methods of the digestType interface; internal helpers
+// (appendString, parse, parseUnknown, hexVal, metaFromBytes ...) are found by
+// what they do, through the effective body of an entry point (see "effective
+// bodies" below): the rules do not depend on how the work is cut into
+// functions, on helper names, or on whether a helper is inlined.
 
 const c20Pkg = "pkg/blob"
 
@@ -30,33 +38,33 @@ func init() {
 	register(&PropSpec{
 		ID:    "C20",
 		Title: "Blobref text, encodings and ordering are mutually consistent",
-		Explanation: "Decided (table and sibling agreement only, by constant values and types): " +
-			"B-family — for every entry N→M of blob.metaFromString: M is a digestMeta initialised once with all five fields set; M.ctor, M.ctors and M.ctorb all return the same byte-array digest type T; M.size = len(T); M.newHash is the standard-library constructor of the algorithm N names and M.size is that algorithm's Size constant; T.digestName() returns the constant N; T.bytes() returns the whole array; nothing writes the table or a digestMeta after initialisation. " +
+		Explanation: "Decided (table and sibling agreement only, by constant values and types). Wherever a rule speaks of what a function does, it means the function's effective body: the function, the function literals inside it and, transitively (4 calls deep), the package-local functions/methods/generic instances it calls statically, with arguments mapped to parameters; branch facts are carried across such calls (a checking helper's verdict counts as the comparison all its positive returns are dominated by; an unexported helper that is never used as a value inherits the facts that hold at all of its call sites). Function anchors are exported entry points and digestType methods only. " +
+			"B-family — for every entry N→M of blob.metaFromString: M is a digestMeta initialised once with all five fields set; M.ctor, M.ctors and M.ctorb all return the same byte-array digest type T; M.size = len(T); M.newHash is the standard-library constructor of the algorithm N names and M.size is that algorithm's Size constant; T.digestName() returns the constant N; T.bytes() returns the whole array; nothing writes the table or a digestMeta after initialisation (the literals may be built by a constructor helper that only the initializer calls; its parameters then stand for the arguments of each call). " +
 			"B-type — every entry of blob.metaFromType is keyed by (reflect type of F(), n) and maps to a digestMeta M of metaFromString with M.newHash = F and M.size = n; every M of metaFromString has such an entry (else RefFromHash panics for that family). " +
-			"B-text — in T.equalString and T.hasPrefix of every fixed-size digest type: every integer constant compared with len(s) is the text length len(N)+1+2·size (or a small lower-bound guard), every constant prefix compared with s is N+separator; every return of equalString that may be true is dominated by len(s)=text length and by a successful prefix match; every constant-true return of hasPrefix is dominated by len(s)≤text length and a successful prefix match, other returns delegate to T.equalString on the same string. " +
+			"B-text — in T.equalString and T.hasPrefix of every fixed-size digest type, and in every package-local function they hand the same string to (whose integer/string parameters are evaluated from the constant arguments, lengths of constant strings and of whole-array slices): every integer compared with len(s) is the text length len(N)+1+2·size (or a small lower-bound guard), every prefix compared with s is N+separator; every return of equalString that may be true is dominated by len(s)=text length and by a successful prefix match (facts of the caller carried into the callee; the verdict of a checking helper given s counts as what all its positive returns establish); every return of hasPrefix that may be true - constant true, or the verdict of a digit-comparing helper given the rest of the string - is dominated by len(s)≤text length and a successful prefix match, or delegates to T.equalString on the same string. " +
 			"B-name — every key of metaFromString and testRefType, followed by the separator and a digest of the family's length, is matched in full by the regular expression blob.Pattern (which the get handler, the client and search use to recognise refs) and does not contain the separator. " +
-			"B-sep — the separator constant written by appendString and MarshalBinary is the one parse, ParseBytes and UnmarshalBinary split on. " +
-			"B-known — IsSupported returns true only as the ok of a metaFromString lookup; in parse every call of parseUnknown is guarded by allowAll or testRefType[name]; ParseKnown passes allowAll=false. " +
-			"B-len — every call through digestMeta.ctors/ctorb is dominated by len(hex)=2·meta.size and every call through digestMeta.ctor by len(b)=meta.size of the same meta (or takes h.Sum of the hash whose (type,Size()) selected the meta). " +
-			"B-default — blob.NewHash returns the newHash constructor of a supported family. " +
-			"B-hex (writer/reader agreement of the digit alphabet) — writers: Ref.appendString (behind String, StringMinusOne, MarshalJSON) prints each nibble n of a digest byte as E[n] for one constant 16-character table E with distinct characters, read off the constant string indexed by a nibble of the byte (index expression evaluated for all 256 byte values) or off a frozen table of standard-library hex encoders; every other function of pkg/blob in which a nibble selects a character or that calls such an encoder (Ref.Digest, equalString/hasPrefix of all four digest types, the %x re-encoding in UnmarshalBinary) uses the same E. Readers: for the ctors and ctorb constructor of every metaFromString family, every use of the text parameter is followed (slices, conversions, package-local helpers) to the calls that consume its characters; a package-local digit function is evaluated over all 256 byte values by interpreting its go/ssa (pure integer/boolean code, constant strings, package-level constant arrays, stores to the bad flag or a (value, ok) result), a standard-library decoder is looked up in a frozen table; required: accepted characters = {E[0..15]} exactly and accepted c ↦ n with E[n] = c, and no success exit of the constructor (or helper) is reachable from a digit-judging call without crossing the branch on its verdict (bad flag read afterwards, ok result, helper result, decoder error). parseUnknown: the same, except that it may accept more than E (its refs are never of a supported family: B-known). Closure: a value of a family's digest type becomes a digestType only inside that family's ctor/ctors/ctorb functions or helpers only they call. blob.Pattern matches every printed digit at the first, a middle and the last digit position of a full ref of every family. " +
-			"B-less (the ordering functions) — comparators: Ref.Less and every method of pkg/blob named Less that takes a ref-holding struct (Ref, SizedRef) or two indexes into a slice of them (ByRef, SizedByRef); each is executed symbolically on its go/ssa (package-local callees such as Valid, Sum32, Sum64 inlined; bytes.Compare/Equal, strings.Compare, cmp.Compare/Less, slices.Compare/Equal and encoding/binary's BigEndian/LittleEndian.UintNN by their documented meaning; String() as the text form itself), once per metaFromString family with that family's digest length, with concrete control flow and lengths and symbolic operands (validity, digestName(), the N digest bytes, integers tracked byte lane by byte lane so that the window and byte order of an integer comparison are derived from the shifts/ors that built it). All paths are enumerated by answering every comparison of symbolic data less/equal/greater. Required on every path for two valid refs: (1) #names — the digestName() strings (or the whole text forms) have been compared, and under different names the result is name(first) < name(second); digest bytes decide only under equal names; (2) #bytes[family] — under equal names, in every way of satisfying the path's comparison outcomes by per-byte relations, the lexicographic order of digest bytes [0,N) is determined and the result is true exactly when the first operand is smaller: so the compared windows cover every byte from 0 in order, later windows are consulted only on equality of the earlier ones, integer windows are big-endian and unsigned, both operands use the same windows, (3) and the result is false for equal refs. A byte that no comparison constrains while all earlier bytes are equal, a little-endian or signed window, windows that differ between the operands, an operand compared with itself, a result on equality, or reversed operands are violations; code the executor cannot follow (type switches on the digest, other fields, unknown callees) is Undecided. #digit-order — when a comparator decides by digest bytes, the digit table E of appendString (B-hex) is strictly increasing, so byte order carries over to hex digits. #name-order — for every pair of different metaFromString names A < B, A+separator < B+separator and neither is a prefix of the other, so the order of names is the order of the text forms of refs of different hash functions. Premise taken from B-family: T.bytes() is the whole array and T.digestName() the family's name. " +
+			"B-sep — the one separator constant written in the effective body of Ref.String (today by appendString) and of MarshalBinary is the one that the effective bodies of Parse, ParseKnown, ParseBytes and UnmarshalBinary search their text parameter for (the parameter followed through conversions and into helper parameters). " +
+			"B-known — IsSupported returns a possibly-true value only as, or dominated by, the ok (or non-nil value) of a metaFromString lookup, possibly made by a package-local helper; from ParseKnown, followed through all package-local calls, every way to a place that builds a ref of an unsupported hash (a conversion to digestType of a digest type that is no family's; today in parseUnknown) crosses the true edge of a testRefType lookup or of a boolean parameter that the caller on that way pins to constant false (today: parse guards by allowAll || testRefType[name], ParseKnown passes allowAll=false); a guard hoisted into a local (phi of short-circuit operands) is read through. " +
+			"B-len — every call through digestMeta.ctors/ctorb is dominated by len(hex)=2·meta.size and every call through digestMeta.ctor by len(b)=meta.size of the same meta (or takes h.Sum of the hash whose (type,Size()) selected the meta, the lookup possibly made by a helper given h); the comparison may be written out, be the verdict (true / nil error) of a package-local checking helper given the text or its length and the meta, use a size helper of the meta, or - when the call sits in an unexported helper that is never used as a value - hold at every call site of that helper (recursively). " +
+			"B-default — blob.NewHash returns (directly, through package-local helpers, or through the newHash field of a family's digestMeta) the newHash constructor of a supported family. " +
+			"B-hex (writer/reader agreement of the digit alphabet) — writers: the effective body of Ref.String (today appendString, shared with StringMinusOne and MarshalJSON; the table may sit in a helper or function literal of it) prints each nibble n of a digest byte as E[n] for one constant 16-character table E with distinct characters, read off the constant string indexed by a nibble of the byte (index expression evaluated for all 256 byte values) or off a frozen table of standard-library hex encoders; every other function of pkg/blob in which a nibble selects a character or that calls such an encoder (Ref.Digest, equalString/hasPrefix of all four digest types, the %x re-encoding in UnmarshalBinary) uses the same E. Readers: for the ctors and ctorb constructor of every metaFromString family, every use of the text parameter is followed (slices, conversions, package-local helpers) to the calls that consume its characters; a package-local digit function (or a function literal around one that captures the bad flag) is evaluated over all 256 byte values by interpreting its go/ssa (pure integer/boolean code, constant strings, package-level constant arrays, stores to the bad flag or a (value, ok) result), a standard-library decoder is looked up in a frozen table; required: accepted characters = {E[0..15]} exactly and accepted c ↦ n with E[n] = c, and no success exit of the constructor (or helper) is reachable from a digit-judging call without crossing the branch on its verdict (bad flag read afterwards, ok result, helper result, decoder error). The functions that build refs of unsupported hashes (found by the conversion, today parseUnknown; a wrapper that takes no text is followed to its callers): the same, except that they may accept more than E (their refs are never of a supported family: B-known). Closure: a value of a family's digest type becomes a digestType only inside that family's ctor/ctors/ctorb functions or helpers only they call. blob.Pattern matches every printed digit at the first, a middle and the last digit position of a full ref of every family. " +
+			"B-less (the ordering functions) — comparators: Ref.Less and every method of pkg/blob named Less that takes a ref-holding struct (Ref, SizedRef) or two indexes into a slice of them (ByRef, SizedByRef); each is executed symbolically on its go/ssa (package-local callees such as Valid, Sum32, Sum64 inlined; bytes.Compare/Equal, strings.Compare, cmp.Compare/Less, slices.Compare/Equal and encoding/binary's BigEndian/LittleEndian.UintNN by their documented meaning; String() as the text form itself), once per metaFromString family with that family's digest length, with concrete control flow and lengths and symbolic operands (validity, digestName(), the N digest bytes, integers tracked byte lane by byte lane so that the window and byte order of an integer comparison are derived from the shifts/ors that built it). All paths are enumerated by answering every comparison of symbolic data less/equal/greater. Required on every path for two valid refs: (1) #names — the digestName() strings (or the whole text forms) have been compared, and under different names the result is name(first) < name(second); digest bytes decide only under equal names; (2) #bytes[family] — under equal names, in every way of satisfying the path's comparison outcomes by per-byte relations, the lexicographic order of digest bytes [0,N) is determined and the result is true exactly when the first operand is smaller: so the compared windows cover every byte from 0 in order, later windows are consulted only on equality of the earlier ones, integer windows are big-endian and unsigned, both operands use the same windows, (3) and the result is false for equal refs. A byte that no comparison constrains while all earlier bytes are equal, a little-endian or signed window, windows that differ between the operands, an operand compared with itself, a result on equality, or reversed operands are violations; code the executor cannot follow (type switches on the digest, other fields, unknown callees) is Undecided. #digit-order — when a comparator decides by digest bytes, the digit table E of the text form (B-hex) is strictly increasing, so byte order carries over to hex digits. #name-order — for every pair of different metaFromString names A < B, A+separator < B+separator and neither is a prefix of the other, so the order of names is the order of the text forms of refs of different hash functions. Premise taken from B-family: T.bytes() is the whole array and T.digestName() the family's name. " +
 			"NOT decided: that parse∘String, the JSON and the binary encodings round-trip as whole strings; that appendString writes the digest bytes in index order with the high nibble first (B-less decides that Less is the order of (hash name, digest bytes) and that the digit table is increasing; that this is the byte order of the text forms additionally needs that layout); the order of refs of unknown hash names (otherDigest) and of invalid refs; comparators of refs outside pkg/blob and function literals passed to sort.Slice; that the decode loops and equalString/hasPrefix visit every digit position, in the order high nibble first (only the per-digit tables are compared, not the positions); the behaviour of otherDigest beyond its digit alphabet; that the standard-library constructors compute the named algorithm; whether blob.Pattern matches more than the parsers accept. These are value-level statements over all strings.",
 		RuleDocs: map[string]string{
 			"B-family":  "every MapUpdate of metaFromString in the package initializer: digestMeta fields vs digest type vs standard-library constants",
 			"B-type":    "every MapUpdate of metaFromType: key (reflect.TypeOf(F()), n) agrees with the target digestMeta; every family is reachable",
-			"B-text":    "equalString/hasPrefix of every family's digest type: length and prefix constants, and the facts dominating returns that may be true",
+			"B-text":    "equalString/hasPrefix of every family's digest type and the package-local functions they pass the string to (constant arguments bound to parameters): length and prefix constants, and the facts dominating returns that may be true",
 			"B-name":    "every key of metaFromString and testRefType is matched by blob.Pattern in a full ref and does not contain the separator",
-			"B-sep":     "separator constants of appendString, MarshalBinary, parse, ParseBytes, UnmarshalBinary agree",
-			"B-known":   "IsSupported / parse / ParseKnown consult metaFromString (and the test-name table) only",
-			"B-len":     "dynamic calls through digestMeta.ctor/ctors/ctorb are dominated by the matching length fact on the same meta",
-			"B-default": "NewHash's constructor belongs to a metaFromString family",
-			"B-hex":     "digit alphabet: every nibble→character table use and hex encoder call in pkg/blob prints with the table of appendString; the ctors/ctorb constructor of every family and parseUnknown read digits only through digit functions (go/ssa evaluated on all 256 bytes) or tabled decoders whose accepted set and values invert that table, and never report success past an untested bad-digit verdict; family digests are built only by the table's constructors; blob.Pattern matches every printed digit",
+			"B-sep":     "the separator constant written in the effective bodies of Ref.String and MarshalBinary is the one searched for in the effective bodies of Parse, ParseKnown, ParseBytes, UnmarshalBinary",
+			"B-known":   "IsSupported is true only behind a metaFromString lookup; every way from ParseKnown (package-local calls followed) to a place that builds a ref of an unsupported hash crosses a testRefType lookup or a boolean parameter pinned to false by the caller on that way",
+			"B-len":     "dynamic calls through digestMeta.ctor/ctors/ctorb are dominated by the matching length fact on the same meta: a comparison, the verdict of a checking helper, or the facts at all call sites of the unexported helper holding the call",
+			"B-default": "the constructor NewHash returns (package-local helpers and the newHash field of a family's meta followed) belongs to a metaFromString family",
+			"B-hex":     "digit alphabet: every nibble→character table use and hex encoder call in pkg/blob prints with the table found in the effective body of Ref.String; the ctors/ctorb constructor of every family and the functions that build refs of unsupported hashes read digits only through digit functions (go/ssa evaluated on all 256 bytes) or tabled decoders whose accepted set and values invert that table, and never report success past an untested bad-digit verdict; family digests are built only by the table's constructors; blob.Pattern matches every printed digit",
 			"B-less":    "every ref comparator of pkg/blob (Ref.Less; methods named Less on Ref/SizedRef and on slices of them): symbolic execution per family enumerates all paths; different hash names are ordered by digestName(), equal names by a lexicographic comparison that covers digest bytes [0,N) from 0 in order with the same big-endian/unsigned windows on both operands, false on equality; the digit table of the text form is increasing; name order = order of name+separator for all pairs of family names",
 		},
 		Run:       runC20,
 		DesignRef: "DESIGN.md §4 C20",
-		Technique: "static analysis: table agreement over the go/ssa package initializer (constants, types, function identities), constant agreement and dominating branch facts in the digest types' methods; writer/reader alphabet agreement by exhaustive abstract evaluation of the digit functions' go/ssa over the 256 byte values, data-flow of the text argument through package-local helpers, and path search from every digit-judging call to the success exits; ordering functions by path-complete symbolic execution of their go/ssa per digest length (concrete control flow, symbolic digest bytes tracked per byte lane, oracle-driven enumeration of comparison outcomes) and an exact per-path decision over per-byte relations",
+		Technique: "static analysis: table agreement over the go/ssa package initializer (constants, types, function identities), constant agreement and dominating branch facts in the digest types' methods; sites, values and facts are looked for in effective bodies (entry point + statically called package-local functions and literals, arguments mapped to parameters, facts carried across calls and from all call sites into unexported helpers); reachability summaries per function for the known-only rule; writer/reader alphabet agreement by exhaustive abstract evaluation of the digit functions' go/ssa over the 256 byte values, data-flow of the text argument through package-local helpers, and path search from every digit-judging call to the success exits; ordering functions by path-complete symbolic execution of their go/ssa per digest length (concrete control flow, symbolic digest bytes tracked per byte lane, oracle-driven enumeration of comparison outcomes) and an exact per-path decision over per-byte relations",
 		LevelText: "Decides that the per-hash-family tables of pkg/blob agree with each other, with the digest types' methods and with the standard-library hash constants, that the functions consulting them are guarded by the matching length/lookup facts, and that the set of characters (and their values) the digest parsers of supported families accept is exactly the set the formatters print, so that no string with a character outside the printed alphabet can parse as a supported ref. It also decides, for refs of the supported families, that Ref.Less, SizedRef.Less, ByRef.Less and SizedByRef.Less order by hash name first and then by a lexicographic comparison covering every digest byte in order (big-endian, unsigned, same windows on both operands, irreflexive), and that the hex digit table is increasing — which is the byte order of the text forms provided appendString lays the digits out in byte order, high nibble first (not decided). It does not decide the remaining value-level statements of the property (round trips of whole text/JSON/binary forms, the digit layout/positions, that every digit position is visited in the right order by parsers and equalString/hasPrefix); those need dynamic checking.",
 	})
 }
@@ -78,7 +86,7 @@ type c20Fam struct {
 	name   string
 	pos    token.Pos
 	val    ssa.Value              // the map value as written
-	meta   *ssa.Alloc             // the digestMeta it resolves to (nil if unresolved)
+	meta   ssa.Value              // the digestMeta it resolves to: the composite literal of the initializer, or the initializer's call of a constructor helper that returns one (nil if unresolved)
 	field  map[string][]ssa.Value // values stored per field
 	T      *types.Named           // digest type (from ctor)
 	size   int64
@@ -93,7 +101,7 @@ type c20Model struct {
 	fns    []*ssa.Function
 	metaT  *types.Named
 	fams   []*c20Fam
-	byMeta map[*ssa.Alloc]*c20Fam
+	byMeta map[ssa.Value]*c20Fam
 	sep    string // separator between name and digits, from appendString ("" if undetermined)
 	gStr   *ssa.Global
 	gType  *ssa.Global
@@ -104,9 +112,10 @@ type c20Model struct {
 	textMemo   map[c20TextKey]*c20TextSum
 	cgCallers  map[*ssa.Function]map[*ssa.Function]bool
 	cgValueUse map[*ssa.Function]bool
-	// B-less: the digit table of appendString, as extracted by B-hex
+	// B-less: the digit table of the text form, as extracted by B-hex, and the function holding it
 	hexE   [16]byte
 	hexEOK bool
+	hexFn  *ssa.Function
 }
 
 func (m *c20Fam) key() string { return c20Pkg + ".metaFromString[" + m.name + "]" }
@@ -245,7 +254,7 @@ func (m *c20Model) mapEntries(g *ssa.Global) ([]c20Entry, string) {
 }
 
 func c20Build(p *Program, r *Reporter) *c20Model {
-	m := &c20Model{p: p, r: r, pkg: p.SSAPkg(c20Pkg), byMeta: map[*ssa.Alloc]*c20Fam{}}
+	m := &c20Model{p: p, r: r, pkg: p.SSAPkg(c20Pkg), byMeta: map[ssa.Value]*c20Fam{}}
 	seen := map[*ssa.Function]bool{}
 	for _, f := range p.FuncsIn(c20Pkg) {
 		if !seen[f] {
@@ -280,10 +289,10 @@ func c20Build(p *Program, r *Reporter) *c20Model {
 			continue
 		}
 		f := &c20Fam{name: name, pos: e.pos, val: e.val, field: map[string][]ssa.Value{}}
-		if al, ok := m.resolve(e.val).(*ssa.Alloc); ok && NamedOf(al.Type()) == m.metaT {
-			f.meta = al
-			if prev := m.byMeta[al]; prev == nil {
-				m.byMeta[al] = f
+		if id := m.metaIdentity(e.val); id != nil {
+			f.meta = id
+			if prev := m.byMeta[id]; prev == nil {
+				m.byMeta[id] = f
 			}
 		}
 		m.fams = append(m.fams, f)
@@ -326,7 +335,42 @@ func c20FieldIndex(n *types.Named, name string) int {
 // table value.
 func (m *c20Model) readMeta(f *c20Fam) string {
 	st := m.metaT.Underlying().(*types.Struct)
-	for _, u := range nonDebug(*f.meta.Referrers()) {
+	lit, _ := f.meta.(*ssa.Alloc)
+	var bind func(v ssa.Value) ssa.Value = func(v ssa.Value) ssa.Value { return v }
+	if call, ok := f.meta.(*ssa.Call); ok {
+		// a constructor helper called by the initializer: its literal, with the
+		// helper's parameters standing for the arguments of this call
+		h := m.localCallee(call.Parent(), call)
+		lit = m.metaHelperLiteral(h)
+		if lit == nil {
+			return "the value is built by a call the analysis cannot read as a digestMeta constructor"
+		}
+		bind = func(v ssa.Value) ssa.Value {
+			if prm, ok := v.(*ssa.Parameter); ok {
+				for i, hp := range h.Params {
+					if hp == prm && i < len(call.Call.Args) {
+						return call.Call.Args[i]
+					}
+				}
+			}
+			return v
+		}
+		for _, u := range nonDebug(*call.Referrers()) {
+			switch x := u.(type) {
+			case *ssa.Store:
+				if _, ok := x.Addr.(*ssa.Global); !ok || x.Val != ssa.Value(call) {
+					return "the constructed digestMeta is stored into something other than a package-level variable; cannot follow"
+				}
+			case *ssa.MapUpdate:
+			default:
+				return fmt.Sprintf("the constructed digestMeta is used by %T during initialisation; cannot follow", u)
+			}
+		}
+	}
+	if lit == nil {
+		return "the value does not resolve to a digestMeta literal"
+	}
+	for _, u := range nonDebug(*lit.Referrers()) {
 		switch x := u.(type) {
 		case *ssa.FieldAddr:
 			fname := st.Field(x.Field).Name()
@@ -335,10 +379,10 @@ func (m *c20Model) readMeta(f *c20Fam) string {
 				if !ok || s.Addr != ssa.Value(x) {
 					return fmt.Sprintf("the address of field %s of the digestMeta literal is used by %T; cannot follow", fname, uu)
 				}
-				f.field[fname] = append(f.field[fname], s.Val)
+				f.field[fname] = append(f.field[fname], bind(s.Val))
 			}
 		case *ssa.Store:
-			if x.Val != ssa.Value(f.meta) {
+			if x.Val != ssa.Value(lit) {
 				return "the digestMeta literal is overwritten as a whole"
 			}
 			if _, ok := x.Addr.(*ssa.Global); !ok {
@@ -346,11 +390,74 @@ func (m *c20Model) readMeta(f *c20Fam) string {
 			}
 		case *ssa.MapUpdate:
 			// used directly as a table value
+		case *ssa.Return:
+			if lit == f.meta {
+				return "the digestMeta literal is returned during initialisation; cannot follow"
+			}
 		default:
 			return fmt.Sprintf("the digestMeta literal is used by %T during initialisation; cannot follow", u)
 		}
 	}
 	return ""
+}
+
+// metaIdentity: what a table value denotes - the digestMeta composite literal
+// of the package initializer, or the initializer's call of a package-local
+// constructor helper that returns a fresh literal (each call a different meta).
+func (m *c20Model) metaIdentity(v ssa.Value) ssa.Value {
+	switch x := m.resolve(v).(type) {
+	case *ssa.Alloc:
+		if NamedOf(x.Type()) == m.metaT {
+			return x
+		}
+	case *ssa.Call:
+		if x.Parent() != nil && x.Parent().Synthetic == "package initializer" && m.metaHelperLiteral(m.localCallee(x.Parent(), x)) != nil {
+			return x
+		}
+	}
+	return nil
+}
+
+// metaHelperLiteral: h is a constructor helper - every return yields the one
+// digestMeta literal allocated in h, and h is only ever called (directly or
+// through such helpers) by the package initializer.
+func (m *c20Model) metaHelperLiteral(h *ssa.Function) *ssa.Alloc {
+	if h == nil || h.Blocks == nil || !m.initOnly(h, 0) {
+		return nil
+	}
+	var lit *ssa.Alloc
+	for _, ri := range Returns(h) {
+		if len(ri.Results) != 1 {
+			return nil
+		}
+		al, ok := ri.Results[0].(*ssa.Alloc)
+		if !ok || al.Parent() != h || NamedOf(al.Type()) != m.metaT || (lit != nil && lit != al) {
+			return nil
+		}
+		lit = al
+	}
+	return lit
+}
+
+// initOnly: fn is the package initializer, or an unexported function that is
+// never used as a value and all of whose static callers are initOnly.
+func (m *c20Model) initOnly(fn *ssa.Function, depth int) bool {
+	if fn.Synthetic == "package initializer" {
+		return true
+	}
+	if depth > c20EffDepth {
+		return false
+	}
+	sites, closed := m.callSitesOf(fn)
+	if !closed {
+		return false
+	}
+	for _, cs := range sites {
+		if !m.initOnly(TopFunc(cs.Fn), depth+1) {
+			return false
+		}
+	}
+	return true
 }
 
 // metaWriters lists functions that store into a digestMeta field through
@@ -368,8 +475,8 @@ func (m *c20Model) metaWriters() []string {
 				if !ok || NamedOf(fa.X.Type()) != m.metaT {
 					continue
 				}
-				if al, ok := fa.X.(*ssa.Alloc); ok && al.Parent() == fn && fn.Synthetic == "package initializer" {
-					continue // a composite literal in the initializer
+				if al, ok := fa.X.(*ssa.Alloc); ok && al.Parent() == fn && m.initOnly(fn, 0) {
+					continue // a composite literal in the initializer, or in a constructor helper only it calls
 				}
 				out = append(out, FuncKey(fn))
 			}
@@ -763,8 +870,10 @@ func c20RuleType(m *c20Model) {
 	reached := map[*c20Fam]bool{}
 	for i, e := range ents {
 		site := p.Pos(e.pos)
-		tgt, _ := m.resolve(e.val).(*ssa.Alloc)
-		fam := m.byMeta[tgt]
+		var fam *c20Fam
+		if tgt := m.metaIdentity(e.val); tgt != nil {
+			fam = m.byMeta[tgt]
+		}
 		label := fmt.Sprintf("#%d", i)
 		if fam != nil {
 			label = fam.name
@@ -883,8 +992,7 @@ func c20StructFieldType(t types.Type, i int) types.Type {
 // B-sep
 
 // c20ByteConstsWritten: constant bytes / strings appended or stored in fn.
-func c20SepWritten(fn *ssa.Function) map[string]bool {
-	out := map[string]bool{}
+func c20SepWritten(fn *ssa.Function, out map[string]bool) {
 	for _, b := range fn.Blocks {
 		for _, in := range b.Instrs {
 			switch x := in.(type) {
@@ -911,42 +1019,82 @@ func c20SepWritten(fn *ssa.Function) map[string]bool {
 			}
 		}
 	}
-	return out
 }
 
-// c20SepSearched: constants that fn searches its first parameter for
-// (strings/bytes Index, IndexByte, Cut, IndexRune, LastIndex… on the parameter).
-func c20SepSearched(fn *ssa.Function, param ssa.Value) map[string]bool {
+// sepWritten: the constants written in the effective body of root, and the
+// function of that body that writes them (root when none or several do).
+func (m *c20Model) sepWritten(root *ssa.Function) (map[string]bool, *ssa.Function) {
 	out := map[string]bool{}
-	for _, c := range CallsIn(fn, false) {
-		cal := c.Common().StaticCallee()
-		if cal == nil || cal.Pkg == nil || len(c.Common().Args) < 2 {
-			continue
+	at := root
+	nAt := 0
+	for _, fn := range m.effBody(root, false) {
+		w := map[string]bool{}
+		c20SepWritten(fn, w)
+		if len(w) > 0 {
+			at = fn
+			nAt++
 		}
-		pp := cal.Pkg.Pkg.Path()
-		if pp != "strings" && pp != "bytes" {
-			continue
-		}
-		switch cal.Name() {
-		case "Index", "IndexByte", "IndexRune", "Cut", "LastIndex", "LastIndexByte", "SplitN", "Split":
-		default:
-			continue
-		}
-		if c.Common().Args[0] != param {
-			continue
-		}
-		a := c.Common().Args[1]
-		if s, ok := ConstString(a); ok {
-			out[s] = true
-		} else if n, ok := ConstInt(a); ok {
-			out[string(rune(n))] = true
-		} else if cv, ok := a.(*ssa.Convert); ok {
-			if s, ok := ConstString(cv.X); ok {
-				out[s] = true
-			}
+		for k := range w {
+			out[k] = true
 		}
 	}
-	return out
+	if nAt != 1 {
+		at = root
+	}
+	return out, TopFunc(at)
+}
+
+// sepSearched: constants that the effective body of root searches root's
+// parameter param for (strings/bytes Index, IndexByte, Cut, IndexRune,
+// LastIndex... on the parameter, on a conversion of it, or on the parameter of
+// a helper it is passed to), and the function containing the search.
+func (m *c20Model) sepSearched(root *ssa.Function, param ssa.Value) (map[string]bool, *ssa.Function) {
+	out := map[string]bool{}
+	fl := m.flowSet(root, param)
+	at := root
+	nAt := 0
+	for _, fn := range m.effBody(root, false) {
+		found := false
+		for _, c := range CallsIn(fn, false) {
+			cal := c.Common().StaticCallee()
+			if cal == nil || cal.Pkg == nil || len(c.Common().Args) < 2 {
+				continue
+			}
+			pp := cal.Pkg.Pkg.Path()
+			if pp != "strings" && pp != "bytes" {
+				continue
+			}
+			switch cal.Name() {
+			case "Index", "IndexByte", "IndexRune", "Cut", "LastIndex", "LastIndexByte", "SplitN", "Split":
+			default:
+				continue
+			}
+			if !fl.has(c.Common().Args[0]) {
+				continue
+			}
+			a := c.Common().Args[1]
+			if s, ok := ConstString(a); ok {
+				out[s] = true
+				found = true
+			} else if n, ok := ConstInt(a); ok {
+				out[string(rune(n))] = true
+				found = true
+			} else if cv, ok := a.(*ssa.Convert); ok {
+				if s, ok := ConstString(cv.X); ok {
+					out[s] = true
+					found = true
+				}
+			}
+		}
+		if found {
+			at = fn
+			nAt++
+		}
+	}
+	if nAt != 1 {
+		at = root
+	}
+	return out, TopFunc(at)
 }
 
 func c20Keys(m map[string]bool) []string {
@@ -958,50 +1106,87 @@ func c20Keys(m map[string]bool) []string {
 	return out
 }
 
+// c20TextParam: the parameter of an entry point that carries the text/bytes to
+// parse: the only parameter of string or byte-slice type.
+func c20TextParam(fn *ssa.Function) ssa.Value {
+	var out ssa.Value
+	for i, prm := range fn.Params {
+		if i == 0 && fn.Signature.Recv() != nil {
+			continue
+		}
+		switch u := prm.Type().Underlying().(type) {
+		case *types.Basic:
+			if u.Info()&types.IsString == 0 {
+				continue
+			}
+		case *types.Slice:
+			if b, ok := u.Elem().Underlying().(*types.Basic); !ok || b.Kind() != types.Uint8 {
+				continue
+			}
+		default:
+			continue
+		}
+		if out != nil {
+			return nil
+		}
+		out = prm
+	}
+	return out
+}
+
 func c20RuleSep(m *c20Model) {
 	p, r := m.p, m.r
 	const rule = "B-sep"
-	r.Floor(rule, 5)
-	as := p.Func(c20Pkg, "Ref", "appendString")
-	w := c20SepWritten(as)
+	// two writers (text, binary) and at least one reader of each form; today 5
+	// (Parse/ParseKnown share their splitting code, ParseBytes has its own)
+	r.Floor(rule, 4)
+	// writers: the text form (Ref.String and whatever it is built from) and the binary form
+	str := p.Func(c20Pkg, "Ref", "String")
+	w, as := m.sepWritten(str)
 	if len(w) != 1 {
-		r.Undecided(rule, FuncKey(as)+"#separator", p.Pos(as.Pos()), fmt.Sprintf("appendString writes %d distinct constants %v; expected exactly the one separator between digest name and digits", len(w), c20Keys(w)))
+		r.Undecided(rule, FuncKey(as)+"#separator", p.Pos(as.Pos()), fmt.Sprintf("the text form (Ref.String and the package-local functions it is built from) writes %d distinct constants %v; expected exactly the one separator between digest name and digits", len(w), c20Keys(w)))
 	} else {
 		for k := range w {
 			m.sep = k
 		}
-		r.OKTable(rule, FuncKey(as)+"#separator", p.Pos(as.Pos()), fmt.Sprintf("text form is name + %q + hex digits", m.sep))
+		r.OKTable(rule, FuncKey(as)+"#separator", p.Pos(as.Pos()), fmt.Sprintf("text form is name + %q + hex digits (written by %s, reached from Ref.String)", m.sep, FuncKey(as)))
 	}
 	if m.sep == "" {
 		return
 	}
 	mb := p.Func(c20Pkg, "Ref", "MarshalBinary")
-	wb := c20SepWritten(mb)
+	wb, mbAt := m.sepWritten(mb)
 	switch {
 	case len(wb) != 1:
-		r.Undecided(rule, FuncKey(mb)+"#separator", p.Pos(mb.Pos()), fmt.Sprintf("MarshalBinary writes %d distinct constants %v", len(wb), c20Keys(wb)))
+		r.Undecided(rule, FuncKey(mbAt)+"#separator", p.Pos(mbAt.Pos()), fmt.Sprintf("MarshalBinary writes %d distinct constants %v", len(wb), c20Keys(wb)))
 	default:
-		r.Check(wb[m.sep], rule, FuncKey(mb)+"#separator", p.Pos(mb.Pos()),
+		r.Check(wb[m.sep], rule, FuncKey(mbAt)+"#separator", p.Pos(mbAt.Pos()),
 			"binary form is name + the same separator + raw digest",
 			fmt.Sprintf("MarshalBinary writes %v between name and digest; UnmarshalBinary and the text form use %q", c20Keys(wb), m.sep))
 	}
-	for _, a := range []struct{ recv, name string }{{"", "parse"}, {"", "ParseBytes"}, {"Ref", "UnmarshalBinary"}} {
+	// readers: the exported entry points; what they split on is looked for in their effective bodies
+	seenKey := map[string]bool{}
+	for _, a := range []struct{ recv, name string }{{"", "Parse"}, {"", "ParseKnown"}, {"", "ParseBytes"}, {"Ref", "UnmarshalBinary"}} {
 		fn := p.Func(c20Pkg, a.recv, a.name)
-		var param ssa.Value
-		if a.recv == "" {
-			param = fn.Params[0]
-		} else {
-			param = fn.Params[1]
+		param := c20TextParam(fn)
+		if param == nil {
+			r.Undecided(rule, FuncKey(fn)+"#separator", p.Pos(fn.Pos()), "cannot tell which parameter carries the text to split")
+			continue
 		}
-		s := c20SepSearched(fn, param)
+		s, at := m.sepSearched(fn, param)
+		key := FuncKey(at) + "#separator"
+		if seenKey[key] {
+			continue // Parse and ParseKnown share their splitting code
+		}
+		seenKey[key] = true
 		switch {
 		case len(s) == 0:
-			r.Undecided(rule, FuncKey(fn)+"#separator", p.Pos(fn.Pos()), "cannot find the constant this function splits its input on")
+			r.Undecided(rule, key, p.Pos(at.Pos()), "cannot find the constant "+a.name+" splits its input on")
 		default:
 			ok := len(s) == 1 && s[m.sep]
-			r.Check(ok, rule, FuncKey(fn)+"#separator", p.Pos(fn.Pos()),
-				fmt.Sprintf("splits its input at %q, the separator the writers emit", m.sep),
-				fmt.Sprintf("splits its input at %v but appendString/MarshalBinary write %q: nothing this package prints can be read back", c20Keys(s), m.sep))
+			r.Check(ok, rule, key, p.Pos(at.Pos()),
+				fmt.Sprintf("%s splits its input at %q, the separator the writers emit", a.name, m.sep),
+				fmt.Sprintf("%s splits its input at %v but String/MarshalBinary write %q: nothing this package prints can be read back", a.name, c20Keys(s), m.sep))
 		}
 	}
 }
@@ -1030,8 +1215,165 @@ type c20LenCmp struct {
 var c20Flip = map[token.Token]token.Token{token.EQL: token.EQL, token.NEQ: token.NEQ, token.LSS: token.GTR, token.GTR: token.LSS, token.LEQ: token.GEQ, token.GEQ: token.LEQ}
 var c20Neg = map[token.Token]token.Token{token.EQL: token.NEQ, token.NEQ: token.EQL, token.LSS: token.GEQ, token.GEQ: token.LSS, token.GTR: token.LEQ, token.LEQ: token.GTR}
 
-// c20LenCmpOf recognises `len(s) op const` / `const op len(s)` for the given s.
-func c20LenCmpOf(v ssa.Value, s ssa.Value) (c20LenCmp, bool) {
+// c20TextEnv: one function of the effective body of an equalString/hasPrefix
+// method, with what is known about its parameters: s is the value denoting the
+// string under test, ints/strs/lens the parameters (and only parameters) that
+// the caller binds to a constant integer, a constant string, or a slice of
+// known length.
+type c20TextEnv struct {
+	m    *c20Model
+	fn   *ssa.Function
+	s    ssa.Value
+	ints map[ssa.Value]int64
+	strs map[ssa.Value]string
+	lens map[ssa.Value]int64
+}
+
+// intOf evaluates an integer expression over constants, bound parameters and
+// lengths of constant strings / whole-array slices.
+func (e *c20TextEnv) intOf(v ssa.Value, depth int) (int64, bool) {
+	if depth > 6 {
+		return 0, false
+	}
+	if n, ok := ConstInt(v); ok {
+		return n, true
+	}
+	if n, ok := e.ints[v]; ok {
+		return n, true
+	}
+	switch x := v.(type) {
+	case *ssa.Convert:
+		if _, _, ok := c20IntKind(x.Type()); ok {
+			return e.intOf(x.X, depth+1)
+		}
+	case *ssa.ChangeType:
+		return e.intOf(x.X, depth+1)
+	case *ssa.BinOp:
+		a, okA := e.intOf(x.X, depth+1)
+		b, okB := e.intOf(x.Y, depth+1)
+		if !okA || !okB {
+			return 0, false
+		}
+		switch x.Op {
+		case token.ADD:
+			return a + b, true
+		case token.SUB:
+			return a - b, true
+		case token.MUL:
+			return a * b, true
+		case token.SHL:
+			if b >= 0 && b < 32 {
+				return a << uint(b), true
+			}
+		}
+	case *ssa.Call:
+		if y, ok := c20LenOf(x); ok {
+			if y == e.s {
+				return 0, false
+			}
+			if str, ok := e.strOf(y, depth+1); ok {
+				return int64(len(str)), true
+			}
+			if n, ok := e.lens[y]; ok {
+				return n, true
+			}
+			if n, ok := c20WholeArrayLen(y); ok {
+				return n, true
+			}
+		}
+	}
+	if o := originValue(v); o != v {
+		return e.intOf(o, depth+1)
+	}
+	return 0, false
+}
+
+// strOf evaluates a string expression over constants and bound parameters.
+func (e *c20TextEnv) strOf(v ssa.Value, depth int) (string, bool) {
+	if depth > 6 {
+		return "", false
+	}
+	if str, ok := ConstString(v); ok {
+		return str, true
+	}
+	if str, ok := e.strs[v]; ok {
+		return str, true
+	}
+	switch x := v.(type) {
+	case *ssa.ChangeType:
+		return e.strOf(x.X, depth+1)
+	case *ssa.Convert:
+		if b, ok := x.Type().Underlying().(*types.Basic); ok && b.Info()&types.IsString != 0 {
+			if xb, ok := x.X.Type().Underlying().(*types.Basic); ok && xb.Info()&types.IsString != 0 {
+				return e.strOf(x.X, depth+1)
+			}
+		}
+	case *ssa.BinOp:
+		if x.Op == token.ADD {
+			a, okA := e.strOf(x.X, depth+1)
+			b, okB := e.strOf(x.Y, depth+1)
+			if okA && okB {
+				return a + b, true
+			}
+		}
+	}
+	if o := originValue(v); o != v {
+		return e.strOf(o, depth+1)
+	}
+	return "", false
+}
+
+// c20WholeArrayLen: v is a[:] of an array (or pointer to array), or an array value.
+func c20WholeArrayLen(v ssa.Value) (int64, bool) {
+	if sl, ok := v.(*ssa.Slice); ok && sl.Low == nil && sl.High == nil && sl.Max == nil {
+		t := sl.X.Type().Underlying()
+		if pt, ok := t.(*types.Pointer); ok {
+			t = pt.Elem().Underlying()
+		}
+		if at, ok := t.(*types.Array); ok {
+			return at.Len(), true
+		}
+	}
+	if at, ok := v.Type().Underlying().(*types.Array); ok {
+		return at.Len(), true
+	}
+	return 0, false
+}
+
+// enter builds the environment of callee for a call from e; k = index of the
+// parameter the string under test is passed as (-1: it is not passed as such).
+func (e *c20TextEnv) enter(call *ssa.Call) (*c20TextEnv, bool) {
+	cal := e.m.localCallee(call.Parent(), call)
+	if cal == nil || len(call.Call.Args) != len(cal.Params) {
+		return nil, false
+	}
+	ne := &c20TextEnv{m: e.m, fn: cal, ints: map[ssa.Value]int64{}, strs: map[ssa.Value]string{}, lens: map[ssa.Value]int64{}}
+	for i, a := range call.Call.Args {
+		prm := cal.Params[i]
+		if a == e.s {
+			if ne.s != nil {
+				return nil, false
+			}
+			ne.s = prm
+			continue
+		}
+		if n, ok := e.intOf(a, 0); ok {
+			ne.ints[prm] = n
+		}
+		if str, ok := e.strOf(a, 0); ok {
+			ne.strs[prm] = str
+		}
+		if n, ok := c20WholeArrayLen(a); ok {
+			ne.lens[prm] = n
+		} else if n, ok := e.lens[a]; ok {
+			ne.lens[prm] = n
+		}
+	}
+	return ne, ne.s != nil
+}
+
+// lenCmpOf recognises `len(s) op n` / `n op len(s)` with n evaluable in e.
+func (e *c20TextEnv) lenCmpOf(v ssa.Value) (c20LenCmp, bool) {
 	bo, ok := v.(*ssa.BinOp)
 	if !ok {
 		return c20LenCmp{}, false
@@ -1039,51 +1381,117 @@ func c20LenCmpOf(v ssa.Value, s ssa.Value) (c20LenCmp, bool) {
 	if _, ok := c20Flip[bo.Op]; !ok {
 		return c20LenCmp{}, false
 	}
-	if x, ok := c20LenOf(bo.X); ok && x == s {
-		if c, ok := ConstInt(bo.Y); ok {
+	if x, ok := c20LenOf(bo.X); ok && x == e.s {
+		if c, ok := e.intOf(bo.Y, 0); ok {
 			return c20LenCmp{bo.Op, c, bo.Pos()}, true
 		}
 	}
-	if y, ok := c20LenOf(bo.Y); ok && y == s {
-		if c, ok := ConstInt(bo.X); ok {
+	if y, ok := c20LenOf(bo.Y); ok && y == e.s {
+		if c, ok := e.intOf(bo.X, 0); ok {
 			return c20LenCmp{c20Flip[bo.Op], c, bo.Pos()}, true
 		}
 	}
 	return c20LenCmp{}, false
 }
 
-// c20LenInterval: what the dominating branch facts say about len(s) at b.
-func c20LenInterval(b *ssa.BasicBlock, s ssa.Value) (lo, hi int64) {
-	lo, hi = 0, math.MaxInt64
-	for _, f := range FactsAt(b) {
-		cmp, ok := c20LenCmpOf(f.Cond, s)
-		if !ok {
-			continue
-		}
+// c20TextFacts: what is known about the string under test.
+type c20TextFacts struct {
+	lo, hi int64
+	pre    bool // a successful match of the family's prefix
+}
+
+func c20NoFacts() c20TextFacts { return c20TextFacts{0, math.MaxInt64, false} }
+
+func (a c20TextFacts) and(b c20TextFacts) c20TextFacts {
+	return c20TextFacts{max(a.lo, b.lo), min(a.hi, b.hi), a.pre || b.pre}
+}
+
+// apply adds what cond == val says.
+func (e *c20TextEnv) apply(f c20TextFacts, cond ssa.Value, val bool, want string, depth int) c20TextFacts {
+	if depth > 3 {
+		return f
+	}
+	if u, ok := cond.(*ssa.UnOp); ok && u.Op == token.NOT {
+		return e.apply(f, u.X, !val, want, depth+1)
+	}
+	if cmp, ok := e.lenCmpOf(cond); ok {
 		op := cmp.op
-		if !f.Val {
+		if !val {
 			op = c20Neg[op]
 		}
 		switch op {
 		case token.EQL:
-			lo, hi = max(lo, cmp.c), min(hi, cmp.c)
+			f.lo, f.hi = max(f.lo, cmp.c), min(f.hi, cmp.c)
 		case token.LSS:
-			hi = min(hi, cmp.c-1)
+			f.hi = min(f.hi, cmp.c-1)
 		case token.LEQ:
-			hi = min(hi, cmp.c)
+			f.hi = min(f.hi, cmp.c)
 		case token.GTR:
-			lo = max(lo, cmp.c+1)
+			f.lo = max(f.lo, cmp.c+1)
 		case token.GEQ:
-			lo = max(lo, cmp.c)
+			f.lo = max(f.lo, cmp.c)
+		}
+		return f
+	}
+	if !val {
+		return f
+	}
+	c := cond
+	if ex, ok := c.(*ssa.Extract); ok && ex.Index == 1 {
+		c = ex.Tuple
+	}
+	if k, call, ok := e.prefixCall(c); ok {
+		if n := call.Call.StaticCallee().Name(); k == want && (n == "CutPrefix" || n == "HasPrefix") {
+			f.pre = true
+		}
+		return f
+	}
+	// s[:n] == prefix
+	if bo, ok := cond.(*ssa.BinOp); ok && bo.Op == token.EQL {
+		for _, pr := range [][2]ssa.Value{{bo.X, bo.Y}, {bo.Y, bo.X}} {
+			if sl, ok := pr[1].(*ssa.Slice); ok && sl.X == e.s && sl.Low == nil {
+				if k, ok := e.strOf(pr[0], 0); ok && k == want {
+					if n, ok := e.intOf(sl.High, 0); ok && n == int64(len(want)) {
+						f.pre = true
+					}
+				}
+			}
+		}
+		return f
+	}
+	// the verdict of a package-local checking helper that is given s
+	if call, ok := cond.(*ssa.Call); ok {
+		if ne, ok := e.enter(call); ok && depth < 3 {
+			g, n := c20TextFacts{math.MaxInt64, 0, true}, 0
+			for _, ed := range c20BoolReturnEdges(ne.fn) {
+				if c20IsConstBool(ed.v, false) {
+					continue
+				}
+				fe := ne.apply(ne.factsAt(ed.at, want), ed.v, true, want, depth+1)
+				g = c20TextFacts{min(g.lo, fe.lo), max(g.hi, fe.hi), g.pre && fe.pre}
+				n++
+			}
+			if n > 0 {
+				return f.and(g)
+			}
 		}
 	}
-	return
+	return f
+}
+
+// factsAt: what the branch conditions dominating b say about the string.
+func (e *c20TextEnv) factsAt(b *ssa.BasicBlock, want string) c20TextFacts {
+	f := c20NoFacts()
+	for _, cf := range FactsAt(b) {
+		f = e.apply(f, cf.Cond, cf.Val, want, 0)
+	}
+	return f
 }
 
 var c20PrefixFuncs = map[string]bool{"CutPrefix": true, "HasPrefix": true, "TrimPrefix": true}
 
-// c20PrefixCall: strings.{CutPrefix,HasPrefix,TrimPrefix}(s, const) → const.
-func c20PrefixCall(v ssa.Value, s ssa.Value) (string, *ssa.Call, bool) {
+// prefixCall: strings.{CutPrefix,HasPrefix,TrimPrefix}(s, k) with k evaluable → k.
+func (e *c20TextEnv) prefixCall(v ssa.Value) (string, *ssa.Call, bool) {
 	c, ok := v.(*ssa.Call)
 	if !ok {
 		return "", nil, false
@@ -1092,35 +1500,161 @@ func c20PrefixCall(v ssa.Value, s ssa.Value) (string, *ssa.Call, bool) {
 	if cal == nil || cal.Pkg == nil || cal.Pkg.Pkg.Path() != "strings" || !c20PrefixFuncs[cal.Name()] || len(c.Call.Args) != 2 {
 		return "", nil, false
 	}
-	if c.Call.Args[0] != s {
+	if c.Call.Args[0] != e.s {
 		return "", nil, false
 	}
-	k, ok := ConstString(c.Call.Args[1])
+	k, ok := e.strOf(c.Call.Args[1], 0)
 	if !ok {
 		return "", nil, false
 	}
 	return k, c, true
 }
 
-// c20PrefixFact: a successful match of the constant prefix want against s dominates b.
-func c20PrefixFact(b *ssa.BasicBlock, s ssa.Value, want string) bool {
-	for _, f := range FactsAt(b) {
-		if !f.Val {
+type c20RetEdge struct {
+	v   ssa.Value
+	at  *ssa.BasicBlock
+	ret *ssa.Return
+}
+
+// c20BoolReturnEdges: the returned values of a function with one result, a phi
+// in the returning block split per incoming edge.
+func c20BoolReturnEdges(fn *ssa.Function) []c20RetEdge {
+	var out []c20RetEdge
+	for _, ri := range Returns(fn) {
+		if len(ri.Results) != 1 {
 			continue
 		}
-		cond := f.Cond
-		if ex, ok := cond.(*ssa.Extract); ok && ex.Index == 1 {
-			cond = ex.Tuple
-		}
-		k, call, ok := c20PrefixCall(cond, s)
-		if !ok || k != want {
+		if ph, ok := ri.Results[0].(*ssa.Phi); ok && ph.Block() == ri.Ret.Block() {
+			for i, ed := range ph.Edges {
+				out = append(out, c20RetEdge{ed, ph.Block().Preds[i], ri.Ret})
+			}
 			continue
 		}
-		if n := call.Call.StaticCallee().Name(); n == "CutPrefix" || n == "HasPrefix" {
-			return true
+		out = append(out, c20RetEdge{ri.Results[0], ri.Ret.Block(), ri.Ret})
+	}
+	return out
+}
+
+func c20IsConstBool(v ssa.Value, want bool) bool {
+	c, ok := v.(*ssa.Const)
+	return ok && c.Value != nil && c.Value.Kind() == constant.Bool && constant.BoolVal(c.Value) == want
+}
+
+// c20TextScan accumulates, over the effective body of one method, the
+// constants it compares and the verdicts on its returns.
+type c20TextScan struct {
+	p              *Program
+	fam            *c20Fam
+	eq             *ssa.Function
+	isEq           bool
+	strLen, small  int64
+	prefix         string
+	nLen, nPre     int
+	badLen, badPre []string
+	nRet           int
+	bad, und       string
+	seen           map[*ssa.Function]int
+}
+
+func (sc *c20TextScan) scan(e *c20TextEnv, inh c20TextFacts, depth int) {
+	p := sc.p
+	fn := e.fn
+	if sc.seen[fn] > 3 {
+		return
+	}
+	sc.seen[fn]++
+	// (1) length constants, (2) prefix constants
+	for _, b := range fn.Blocks {
+		for _, in := range b.Instrs {
+			v, ok := in.(ssa.Value)
+			if !ok {
+				continue
+			}
+			if cmp, ok := e.lenCmpOf(v); ok {
+				sc.nLen++
+				if !c20LenConstOK(cmp, sc.strLen, sc.small) {
+					sc.badLen = append(sc.badLen, fmt.Sprintf("len(s) %s %d at line %d", cmp.op, cmp.c, p.Fset.Position(cmp.pos).Line))
+				}
+			}
+			if k, _, ok := e.prefixCall(v); ok {
+				sc.nPre++
+				if k != sc.prefix {
+					sc.badPre = append(sc.badPre, fmt.Sprintf("%q", k))
+				}
+			}
+			if bo, ok := v.(*ssa.BinOp); ok && (bo.Op == token.EQL || bo.Op == token.NEQ) {
+				for _, pr := range [][2]ssa.Value{{bo.X, bo.Y}, {bo.Y, bo.X}} {
+					k, ok := e.strOf(pr[0], 0)
+					if !ok || k == "" {
+						continue
+					}
+					if sl, ok := pr[1].(*ssa.Slice); ok && sl.X == e.s {
+						sc.nPre++
+						if k != sc.prefix {
+							sc.badPre = append(sc.badPre, fmt.Sprintf("%q", k))
+						}
+					}
+				}
+			}
 		}
 	}
-	return false
+	// (3) returns that may be true
+	for _, ed := range c20BoolReturnEdges(fn) {
+		if c20IsConstBool(ed.v, false) {
+			continue
+		}
+		line := p.Fset.Position(ed.ret.Pos()).Line
+		f := inh.and(e.factsAt(ed.at, sc.prefix))
+		lo, hi, havePre := f.lo, f.hi, f.pre
+		// the verdict of a package-local function that is handed the same string:
+		// its returns are judged in its own body, under the facts known here
+		if call, ok := ed.v.(*ssa.Call); ok {
+			if !sc.isEq && call.Call.StaticCallee() == sc.eq && len(call.Call.Args) == 2 && call.Call.Args[1] == e.s {
+				sc.nRet++
+				continue // delegates the full-length case to equalString on the same string
+			}
+			if ne, ok := e.enter(call); ok && depth < c20EffDepth {
+				sc.scan(ne, f, depth+1)
+				continue
+			}
+		}
+		sc.nRet++
+		isTrue := c20IsConstBool(ed.v, true)
+		if sc.isEq {
+			if bo, ok := ed.v.(*ssa.BinOp); ok && bo.Op == token.EQL && (bo.X == e.s || bo.Y == e.s) {
+				continue // whole-string comparison decides by itself
+			}
+			if !isTrue && !(lo == sc.strLen && hi == sc.strLen && havePre) {
+				sc.und = fmt.Sprintf("return at line %d yields a computed value where the length/prefix facts are not established; cannot follow", line)
+				continue
+			}
+			if !(lo == sc.strLen && hi == sc.strLen) {
+				sc.bad = fmt.Sprintf("equalString can return true at line %d where len(s) is only known to be in [%s,%s], not = %d: a string with extra or missing characters compares equal (or the digit loop indexes out of range)", line, c20Bound(lo), c20Bound(hi), sc.strLen)
+			} else if !havePre {
+				sc.bad = fmt.Sprintf("equalString can return true at line %d without a successful match of the prefix %q dominating it: refs of another family with the same digits compare equal", line, sc.prefix)
+			}
+			continue
+		}
+		// hasPrefix: a constant true, or a computed verdict (a digit-comparing
+		// helper given the rest of the string), needs the same two facts
+		what := "return true"
+		if !isTrue {
+			what = "return a computed value that may be true"
+		}
+		if hi > sc.strLen {
+			if isTrue {
+				sc.bad = fmt.Sprintf("hasPrefix can %s at line %d where len(s) may exceed the text length %d: a string longer than the ref is reported as its prefix", what, line, sc.strLen)
+			} else {
+				sc.und = fmt.Sprintf("return at line %d yields a computed value that is neither a constant nor %s.equalString(s), where len(s) is not known to be at most the text length %d; cannot follow", line, sc.fam.T.Obj().Name(), sc.strLen)
+			}
+		} else if !havePre {
+			if isTrue {
+				sc.bad = fmt.Sprintf("hasPrefix can %s at line %d without a successful match of the prefix %q dominating it", what, line, sc.prefix)
+			} else {
+				sc.und = fmt.Sprintf("return at line %d yields a computed value that is neither a constant nor %s.equalString(s), without a successful match of the prefix %q dominating it; cannot follow", line, sc.fam.T.Obj().Name(), sc.prefix)
+			}
+		}
+	}
 }
 
 func c20RuleText(m *c20Model) {
@@ -1147,136 +1681,33 @@ func c20RuleText(m *c20Model) {
 			if len(fn.Params) != 2 {
 				brokenf("anchor unresolved: %s does not take (receiver, string)", FuncKey(fn))
 			}
-			s := ssa.Value(fn.Params[1])
 			site := p.Pos(fn.Pos())
-			// (1) length constants
-			var badLen []string
-			nLen := 0
-			for _, b := range fn.Blocks {
-				for _, in := range b.Instrs {
-					v, ok := in.(ssa.Value)
-					if !ok {
-						continue
-					}
-					cmp, ok := c20LenCmpOf(v, s)
-					if !ok {
-						continue
-					}
-					nLen++
-					if !c20LenConstOK(cmp, strLen, small) {
-						badLen = append(badLen, fmt.Sprintf("len(s) %s %d at line %d", cmp.op, cmp.c, p.Fset.Position(cmp.pos).Line))
-					}
-				}
-			}
-			if len(badLen) > 0 {
-				r.Violation(rule, FuncKey(fn)+"#len-consts", site, fmt.Sprintf("the text form of a %s ref has len(%q)+2·%d = %d bytes, but the function compares %s: refs of the right length are rejected or ones of the wrong length accepted/indexed out of range", f.name, prefix, f.size, strLen, strings.Join(badLen, "; ")))
+			sc := &c20TextScan{p: p, fam: f, eq: eq, isEq: fn == eq, strLen: strLen, small: small, prefix: prefix, seen: map[*ssa.Function]int{}}
+			env := &c20TextEnv{m: m, fn: fn, s: fn.Params[1], ints: map[ssa.Value]int64{}, strs: map[ssa.Value]string{}, lens: map[ssa.Value]int64{}}
+			sc.scan(env, c20NoFacts(), 0)
+			if len(sc.badLen) > 0 {
+				r.Violation(rule, FuncKey(fn)+"#len-consts", site, fmt.Sprintf("the text form of a %s ref has len(%q)+2·%d = %d bytes, but the function compares %s: refs of the right length are rejected or ones of the wrong length accepted/indexed out of range", f.name, prefix, f.size, strLen, strings.Join(sc.badLen, "; ")))
 			} else {
-				r.OK(rule, FuncKey(fn)+"#len-consts", site, fmt.Sprintf("%d comparison(s) of len(s) with a constant, all consistent with text length %d", nLen, strLen))
+				r.OK(rule, FuncKey(fn)+"#len-consts", site, fmt.Sprintf("%d comparison(s) of len(s) with a constant, all consistent with text length %d", sc.nLen, strLen))
 			}
-			// (2) prefix constants
-			var badPre []string
-			nPre := 0
-			for _, b := range fn.Blocks {
-				for _, in := range b.Instrs {
-					v, ok := in.(ssa.Value)
-					if !ok {
-						continue
-					}
-					if k, _, ok := c20PrefixCall(v, s); ok {
-						nPre++
-						if k != prefix {
-							badPre = append(badPre, fmt.Sprintf("%q", k))
-						}
-					}
-					if bo, ok := v.(*ssa.BinOp); ok && (bo.Op == token.EQL || bo.Op == token.NEQ) {
-						for _, pr := range [][2]ssa.Value{{bo.X, bo.Y}, {bo.Y, bo.X}} {
-							k, ok := ConstString(pr[0])
-							if !ok || k == "" {
-								continue
-							}
-							if sl, ok := pr[1].(*ssa.Slice); ok && sl.X == s {
-								nPre++
-								if k != prefix {
-									badPre = append(badPre, fmt.Sprintf("%q", k))
-								}
-							}
-						}
-					}
-				}
-			}
-			if len(badPre) > 0 {
-				r.Violation(rule, FuncKey(fn)+"#prefix-consts", site, fmt.Sprintf("%s.digestName() is %q so the text form starts with %q, but the function matches the prefix %s: it answers false for the ref's own String()", f.T.Obj().Name(), f.name, prefix, strings.Join(badPre, ", ")))
+			if len(sc.badPre) > 0 {
+				r.Violation(rule, FuncKey(fn)+"#prefix-consts", site, fmt.Sprintf("%s.digestName() is %q so the text form starts with %q, but the function matches the prefix %s: it answers false for the ref's own String()", f.T.Obj().Name(), f.name, prefix, strings.Join(sc.badPre, ", ")))
 			} else {
-				r.OK(rule, FuncKey(fn)+"#prefix-consts", site, fmt.Sprintf("%d constant prefix match(es), all %q", nPre, prefix))
-			}
-			// (3) returns that may be true
-			bad, und := "", ""
-			nRet := 0
-			for _, ri := range Returns(fn) {
-				type edge struct {
-					v  ssa.Value
-					at *ssa.BasicBlock
-				}
-				edges := []edge{{ri.Results[0], ri.Ret.Block()}}
-				if ph, ok := ri.Results[0].(*ssa.Phi); ok && ph.Block() == ri.Ret.Block() {
-					edges = nil
-					for i, e := range ph.Edges {
-						edges = append(edges, edge{e, ph.Block().Preds[i]})
-					}
-				}
-				for _, e := range edges {
-					if c, ok := e.v.(*ssa.Const); ok && c.Value != nil && c.Value.Kind() == constant.Bool && !constant.BoolVal(c.Value) {
-						continue
-					}
-					nRet++
-					line := p.Fset.Position(ri.Ret.Pos()).Line
-					lo, hi := c20LenInterval(e.at, s)
-					havePre := c20PrefixFact(e.at, s, prefix)
-					isTrue := false
-					if c, ok := e.v.(*ssa.Const); ok && c.Value != nil && c.Value.Kind() == constant.Bool {
-						isTrue = true
-					}
-					if fn == eq {
-						if bo, ok := e.v.(*ssa.BinOp); ok && bo.Op == token.EQL && (bo.X == s || bo.Y == s) {
-							continue // whole-string comparison decides by itself
-						}
-						if !isTrue && !(lo == strLen && hi == strLen && havePre) {
-							und = fmt.Sprintf("return at line %d yields a computed value where the length/prefix facts are not established; cannot follow", line)
-							continue
-						}
-						if !(lo == strLen && hi == strLen) {
-							bad = fmt.Sprintf("equalString can return true at line %d where len(s) is only known to be in [%s,%s], not = %d: a string with extra or missing characters compares equal (or the digit loop indexes out of range)", line, c20Bound(lo), c20Bound(hi), strLen)
-						} else if !havePre {
-							bad = fmt.Sprintf("equalString can return true at line %d without a successful match of the prefix %q dominating it: refs of another family with the same digits compare equal", line, prefix)
-						}
-						continue
-					}
-					// hasPrefix
-					if isTrue {
-						if hi > strLen {
-							bad = fmt.Sprintf("hasPrefix can return true at line %d where len(s) may exceed the text length %d: a string longer than the ref is reported as its prefix", line, strLen)
-						} else if !havePre {
-							bad = fmt.Sprintf("hasPrefix can return true at line %d without a successful match of the prefix %q dominating it", line, prefix)
-						}
-						continue
-					}
-					if call, ok := e.v.(*ssa.Call); ok && call.Call.StaticCallee() == eq && len(call.Call.Args) == 2 && call.Call.Args[1] == s {
-						continue // delegates the full-length case to equalString on the same string
-					}
-					und = fmt.Sprintf("return at line %d yields a computed value that is neither a constant nor %s.equalString(s); cannot follow", line, f.T.Obj().Name())
-				}
+				r.OK(rule, FuncKey(fn)+"#prefix-consts", site, fmt.Sprintf("%d constant prefix match(es), all %q", sc.nPre, prefix))
 			}
 			switch {
-			case bad != "":
-				r.Violation(rule, FuncKey(fn)+"#true-returns", site, bad)
-			case und != "":
-				r.Undecided(rule, FuncKey(fn)+"#true-returns", site, und)
+			case sc.bad != "":
+				r.Violation(rule, FuncKey(fn)+"#true-returns", site, sc.bad)
+			case sc.und != "":
+				r.Undecided(rule, FuncKey(fn)+"#true-returns", site, sc.und)
+			case sc.nRet == 0:
+				r.Undecided(rule, FuncKey(fn)+"#true-returns", site, "found no return that may be true")
 			default:
 				what := "len(s) = text length and a successful prefix match"
 				if fn == hp {
 					what = "len(s) ≤ text length and a successful prefix match, or delegate to equalString(s)"
 				}
-				r.OK(rule, FuncKey(fn)+"#true-returns", site, fmt.Sprintf("%d return(s) that may be true, each dominated by %s", nRet, what))
+				r.OK(rule, FuncKey(fn)+"#true-returns", site, fmt.Sprintf("%d return(s) that may be true (package-local functions given the same string followed), each dominated by %s", sc.nRet, what))
 			}
 		}
 	}
@@ -1397,6 +1828,106 @@ func (m *c20Model) metaLookupOK(v ssa.Value, depth int) bool {
 	return false
 }
 
+// impliesKnown: v == val implies that a lookup of metaFromString succeeded:
+// v is the ok of such a lookup, `meta != nil` of its value, the verdict of a
+// package-local function all of whose possibly-true returns imply it, or a
+// short-circuit combination of such values.
+func (m *c20Model) impliesKnown(v ssa.Value, val bool, depth int) bool {
+	if depth > c20EffDepth {
+		return false
+	}
+	if val && m.metaLookupOK(v, 0) {
+		return true
+	}
+	switch x := v.(type) {
+	case *ssa.UnOp:
+		if x.Op == token.NOT {
+			return m.impliesKnown(x.X, !val, depth+1)
+		}
+	case *ssa.BinOp:
+		// metaFromString[k] != nil
+		if (x.Op == token.NEQ && val) || (x.Op == token.EQL && !val) {
+			for _, pr := range [][2]ssa.Value{{x.X, x.Y}, {x.Y, x.X}} {
+				if !IsNilConst(pr[1]) {
+					continue
+				}
+				o := pr[0]
+				if ex, ok := o.(*ssa.Extract); ok && ex.Index == 0 {
+					o = ex.Tuple
+				}
+				if lk, ok := o.(*ssa.Lookup); ok && c20IsLoadOf(lk.X, m.gStr) {
+					return true
+				}
+			}
+		}
+	case *ssa.Phi:
+		if !val {
+			return false
+		}
+		for i, e := range x.Edges {
+			if c20IsConstBool(e, false) {
+				continue
+			}
+			if m.impliesKnown(e, true, depth+1) || m.knownAt(x.Block().Preds[i], x.Parent(), depth+1) {
+				continue
+			}
+			return false
+		}
+		return len(x.Edges) > 0
+	case *ssa.Call, *ssa.Extract:
+		if !val {
+			return false
+		}
+		idx := 0
+		var tv ssa.Value = x
+		if ex, ok := x.(*ssa.Extract); ok {
+			idx, tv = ex.Index, ex.Tuple
+		}
+		call, ok := tv.(*ssa.Call)
+		if !ok {
+			return false
+		}
+		cal := m.localCallee(call.Parent(), call)
+		if cal == nil || idx >= cal.Signature.Results().Len() {
+			return false
+		}
+		n := 0
+		for _, ri := range Returns(cal) {
+			if idx >= len(ri.Results) {
+				return false
+			}
+			edges := []c20RetEdge{{ri.Results[idx], ri.Ret.Block(), ri.Ret}}
+			if ph, ok := ri.Results[idx].(*ssa.Phi); ok && ph.Block() == ri.Ret.Block() {
+				edges = nil
+				for i, e := range ph.Edges {
+					edges = append(edges, c20RetEdge{e, ph.Block().Preds[i], ri.Ret})
+				}
+			}
+			for _, ed := range edges {
+				if c20IsConstBool(ed.v, false) {
+					continue
+				}
+				n++
+				if !m.impliesKnown(ed.v, true, depth+1) && !m.knownAt(ed.at, cal, depth+1) {
+					return false
+				}
+			}
+		}
+		return n > 0
+	}
+	return false
+}
+
+// knownAt: a successful metaFromString lookup dominates block b.
+func (m *c20Model) knownAt(b *ssa.BasicBlock, fn *ssa.Function, depth int) bool {
+	for _, f := range FactsAt(b) {
+		if m.impliesKnown(f.Cond, f.Val, depth+1) {
+			return true
+		}
+	}
+	return false
+}
+
 // c20GuardedBy reports whether every path from the entry of b's function to b
 // crosses a branch edge accepted by pred.
 func c20GuardedBy(b *ssa.BasicBlock, pred func(cond ssa.Value, val bool) bool) bool {
@@ -1436,27 +1967,21 @@ func c20RuleKnown(m *c20Model) {
 	is := p.Func(c20Pkg, "Ref", "IsSupported")
 	bad, und := "", ""
 	n := 0
-	for _, ri := range Returns(is) {
-		v := ri.Results[0]
-		if c, ok := v.(*ssa.Const); ok && c.Value != nil && c.Value.Kind() == constant.Bool {
-			if !constant.BoolVal(c.Value) {
-				continue
-			}
-			n++
-			okFact := false
-			for _, f := range FactsAt(ri.Ret.Block()) {
-				if f.Val && m.metaLookupOK(f.Cond, 0) {
-					okFact = true
-				}
-			}
-			if !okFact {
-				bad = fmt.Sprintf("IsSupported returns true at line %d without a successful metaFromString lookup dominating it", p.Fset.Position(ri.Ret.Pos()).Line)
-			}
+	for _, ed := range c20BoolReturnEdges(is) {
+		if c20IsConstBool(ed.v, false) {
 			continue
 		}
 		n++
-		if !m.metaLookupOK(v, 0) {
-			und = fmt.Sprintf("IsSupported returns a computed value at line %d that is not the ok of a metaFromString lookup", p.Fset.Position(ri.Ret.Pos()).Line)
+		line := p.Fset.Position(ed.ret.Pos()).Line
+		if m.knownAt(ed.at, is, 0) {
+			continue // whatever is returned here, a successful lookup dominates it
+		}
+		if c20IsConstBool(ed.v, true) {
+			bad = fmt.Sprintf("IsSupported returns true at line %d without a successful metaFromString lookup dominating it", line)
+			continue
+		}
+		if !m.impliesKnown(ed.v, true, 0) {
+			und = fmt.Sprintf("IsSupported returns a computed value at line %d that is not the ok of a metaFromString lookup", line)
 		}
 	}
 	switch {
@@ -1471,69 +1996,250 @@ func c20RuleKnown(m *c20Model) {
 		r.OK(rule, FuncKey(is)+"#lookup", p.Pos(is.Pos()), "every possibly-true return is the ok of a metaFromString lookup")
 	}
 
-	// parse: calls of parseUnknown guarded by allowAll || testRefType[name]
-	parse := p.Func(c20Pkg, "", "parse")
-	pu := p.Func(c20Pkg, "", "parseUnknown")
-	guardParams := map[ssa.Value]bool{}
-	nUnknown := 0
-	for _, c := range CallsIn(parse, false) {
-		if c.Callee() != pu {
-			continue
-		}
-		nUnknown++
-		usedParam := map[ssa.Value]bool{}
-		ok := c20GuardedBy(c.Block(), func(cond ssa.Value, val bool) bool {
-			if !val {
-				return false
-			}
-			if prm, isP := cond.(*ssa.Parameter); isP {
-				usedParam[prm] = true
-				return true
-			}
-			if lk, isL := cond.(*ssa.Lookup); isL && !lk.CommaOk && c20IsLoadOf(lk.X, m.gTest) {
-				return true
-			}
-			if ex, isE := cond.(*ssa.Extract); isE {
-				if lk, isL := ex.Tuple.(*ssa.Lookup); isL && lk.CommaOk && c20IsLoadOf(lk.X, m.gTest) {
-					return true
-				}
-			}
-			return false
-		})
-		for k := range usedParam {
-			guardParams[k] = true
-		}
-		r.Check(ok, rule, FuncKey(parse)+"#parseUnknown-guard", p.Pos(c.Pos()),
-			"the fall-back to parseUnknown is reached only on the true edge of the allow-all parameter or of a testRefType lookup",
-			"parse falls back to parseUnknown on a path that tests neither the allow-all parameter nor testRefType: ParseKnown accepts refs of hash functions this server does not support")
-	}
-	if nUnknown == 0 {
-		r.OK(rule, FuncKey(parse)+"#parseUnknown-guard", p.Pos(parse.Pos()), "parse never falls back to parseUnknown")
-	}
-	// ParseKnown passes false for every guarding parameter
+	// ParseKnown: no way to a place that builds a ref of an unsupported hash
+	// (a digest type that is not a family's) except behind a testRefType lookup,
+	// followed through the package-local functions it calls, however the work is
+	// cut into helpers.
 	pk := p.Func(c20Pkg, "", "ParseKnown")
-	nCalls := 0
-	for _, c := range CallsIn(pk, false) {
-		if c.Callee() != parse {
-			continue
+	ua := &c20Unk{m: m, sum: map[*ssa.Function]*c20UnkSum{}}
+	root := ua.summary(pk, 0)
+	ua.report(pk, map[*ssa.Function]bool{})
+	key := FuncKey(pk) + "#known-only"
+	switch {
+	case ua.und != "":
+		r.Undecided(rule, key, p.Pos(pk.Pos()), ua.und)
+	case root.always != nil:
+		ev, in := root.always, pk
+		for ev.callee != nil && !ev.argBad {
+			next := ua.sum[ev.callee]
+			if next == nil || next.always == nil || next.always.callee == nil {
+				break
+			}
+			ev, in = next.always, ev.callee
 		}
-		nCalls++
-		okc := true
-		for i, prm := range parse.Params {
-			if !guardParams[prm] {
+		switch {
+		case ev.callee == nil:
+			r.Violation(rule, key, p.Pos(ev.pos), fmt.Sprintf("%s builds a ref with a digest type of no supported family on a path that is not behind a testRefType lookup: ParseKnown accepts refs of hash functions this server does not support", FuncKey(in)))
+		case ev.argBad:
+			r.Violation(rule, FuncKey(in)+"#"+ev.param+"=false", p.Pos(ev.pos), fmt.Sprintf("%s, reached from ParseKnown, calls %s with the allow-all parameter %s not constant false (nor one of its own parameters that its callers pin to false): well-formed refs of unsupported hash functions are reported as known", FuncKey(in), FuncKey(ev.callee), ev.param))
+		default:
+			r.Violation(rule, FuncKey(in)+"#"+ev.callee.Name()+"-guard", p.Pos(ev.pos), fmt.Sprintf("%s, reached from ParseKnown, falls back to %s on a path that tests neither an allow-all parameter (which ParseKnown pins to false) nor testRefType: ParseKnown accepts refs of hash functions this server does not support", FuncKey(in), FuncKey(ev.callee)))
+		}
+		r.Violation(rule, key, p.Pos(pk.Pos()), "ParseKnown can reach a place that builds a ref of an unsupported hash function without crossing a testRefType lookup (see the other B-known finding for the innermost unguarded call)")
+	case len(root.need) > 0:
+		r.Violation(rule, key, p.Pos(pk.Pos()), "whether ParseKnown accepts refs of unsupported hash functions depends on one of its own parameters")
+	case !root.reach && len(root.events) == 0:
+		r.OK(rule, key, p.Pos(pk.Pos()), "nothing ParseKnown calls (package-local functions followed) builds a ref of an unsupported hash function")
+	default:
+		r.OK(rule, key, p.Pos(pk.Pos()), "every way from ParseKnown to a place that builds a ref of an unsupported hash function crosses the true edge of a testRefType lookup, or of a parameter that the caller on that way pins to constant false")
+	}
+}
+
+// c20Unk: which functions can build a ref of an unsupported hash function
+// (a MakeInterface of a digestType implementation that is no family's type),
+// and under which of their boolean parameters.
+type c20UnkEvent struct {
+	pos     token.Pos
+	block   *ssa.BasicBlock
+	callee  *ssa.Function // nil: the conversion itself
+	argBad  bool          // a needed-false parameter of callee gets a value that is not pinned to false
+	param   string
+	guarded bool
+	clean   bool     // the callee cannot build unknown refs whatever it is given
+	pinned  []string // parameters of callee pinned to constant false here
+}
+
+type c20UnkSum struct {
+	reach  bool
+	always *c20UnkEvent // an event reached without an accepted guard
+	need   map[int]bool // parameters (by index) whose true edge guards an event
+	events []*c20UnkEvent
+}
+
+type c20Unk struct {
+	m   *c20Model
+	sum map[*ssa.Function]*c20UnkSum
+	und string
+}
+
+func (m *c20Model) isUnknownDigestSink(in ssa.Instruction) bool {
+	mi, ok := in.(*ssa.MakeInterface)
+	if !ok {
+		return false
+	}
+	it := NamedOf(mi.Type())
+	if it == nil || it.Obj().Name() != "digestType" || it.Obj().Pkg() != m.pkg.Pkg {
+		return false
+	}
+	for _, f := range m.fams {
+		if f.T != nil && types.Identical(mi.X.Type(), f.T) {
+			return false
+		}
+	}
+	return !c20OnlyPrinted(mi)
+}
+
+func (u *c20Unk) summary(fn *ssa.Function, depth int) *c20UnkSum {
+	if s, ok := u.sum[fn]; ok {
+		return s // also breaks recursion: a function under analysis counts as clean
+	}
+	s := &c20UnkSum{need: map[int]bool{}}
+	u.sum[fn] = s
+	m := u.m
+	paramIdx := func(v ssa.Value) int {
+		o := originValue(v)
+		for i, prm := range fn.Params {
+			if o == ssa.Value(prm) {
+				return i
+			}
+		}
+		return -1
+	}
+	for _, b := range fn.Blocks {
+		for _, in := range b.Instrs {
+			var ev *c20UnkEvent
+			if m.isUnknownDigestSink(in) {
+				ev = &c20UnkEvent{pos: in.Pos(), block: b}
+			} else if ci, ok := in.(ssa.CallInstruction); ok {
+				cal := m.localCallee(fn, ci)
+				if cal == nil {
+					continue
+				}
+				if depth >= c20EffDepth+2 {
+					u.und = fmt.Sprintf("the call chain from ParseKnown is deeper than %d package-local calls at %s; cannot follow", c20EffDepth+2, FuncKey(fn))
+					continue
+				}
+				cs := u.summary(cal, depth+1)
+				if !cs.reach {
+					if len(cs.events) > 0 {
+						// neutralised further down (pinned to false there): nothing to ask here,
+						// but the discharged obligations below are reported
+						s.events = append(s.events, &c20UnkEvent{pos: ci.Pos(), block: b, callee: cal, guarded: true, clean: true})
+					}
+					continue
+				}
+				ev = &c20UnkEvent{pos: ci.Pos(), block: b, callee: cal}
+				if !ev.pos.IsValid() {
+					ev.pos = ci.Common().Pos()
+				}
+				args := ci.Common().Args
+				if cs.always == nil {
+					// callee builds unknown refs only when one of its parameters is true
+					clean := len(args) == len(cal.Params)
+					var idxs []int
+					for i := range cs.need {
+						idxs = append(idxs, i)
+					}
+					sort.Ints(idxs)
+					passUp := map[int]bool{}
+					for _, i := range idxs {
+						if !clean {
+							break
+						}
+						a := args[i]
+						if c, ok := a.(*ssa.Const); ok && c.Value != nil && c.Value.Kind() == constant.Bool && !constant.BoolVal(c.Value) {
+							ev.pinned = append(ev.pinned, cal.Params[i].Name())
+							continue
+						}
+						if pi := paramIdx(a); pi >= 0 {
+							passUp[pi] = true
+							continue
+						}
+						clean = false
+						ev.argBad, ev.param = true, cal.Params[i].Name()
+					}
+					if clean && len(passUp) == 0 {
+						ev.guarded = true // pinned: cannot build unknown refs from here
+						s.events = append(s.events, ev)
+						continue
+					}
+					if clean {
+						// own parameters passed through: this function needs them false too
+						for pi := range passUp {
+							s.need[pi] = true
+						}
+						ev.guarded = true
+						s.reach = true
+						s.events = append(s.events, ev)
+						continue
+					}
+				}
+			} else {
 				continue
 			}
-			cv, isC := c.Common().Args[i].(*ssa.Const)
-			if !isC || cv.Value == nil || cv.Value.Kind() != constant.Bool || constant.BoolVal(cv.Value) {
-				okc = false
+			s.reach = true
+			s.events = append(s.events, ev)
+			if ev.argBad {
+				if s.always == nil {
+					s.always = ev
+				}
+				continue
+			}
+			used := map[int]bool{}
+			ok := c20GuardedBy(b, func(cond ssa.Value, val bool) bool {
+				return c20AcceptCond(cond, val, func(cond ssa.Value, val bool) bool {
+					if !val {
+						return false
+					}
+					if pi := paramIdx(cond); pi >= 0 {
+						if bt, isB := fn.Params[pi].Type().Underlying().(*types.Basic); isB && bt.Kind() == types.Bool {
+							used[pi] = true
+							return true
+						}
+					}
+					if lk, isL := cond.(*ssa.Lookup); isL && !lk.CommaOk && c20IsLoadOf(lk.X, m.gTest) {
+						return true
+					}
+					if ex, isE := cond.(*ssa.Extract); isE {
+						if lk, isL := ex.Tuple.(*ssa.Lookup); isL && lk.CommaOk && c20IsLoadOf(lk.X, m.gTest) {
+							return true
+						}
+					}
+					return false
+				}, 0)
+			})
+			if ok {
+				ev.guarded = true
+				for pi := range used {
+					s.need[pi] = true
+				}
+			} else if s.always == nil {
+				s.always = ev
 			}
 		}
-		r.Check(okc, rule, FuncKey(pk)+"#allowAll=false", p.Pos(c.Pos()),
-			"ParseKnown calls parse with the allow-all parameter constant false",
-			"ParseKnown calls parse with the allow-all parameter not constant false: well-formed refs of unsupported hash functions are reported as known")
 	}
-	if nCalls == 0 {
-		r.Undecided(rule, FuncKey(pk)+"#allowAll=false", p.Pos(pk.Pos()), "ParseKnown no longer calls parse; cannot follow how it restricts itself to supported families")
+	return s
+}
+
+// report emits the discharged obligations along the ways from ParseKnown.
+func (u *c20Unk) report(fn *ssa.Function, seen map[*ssa.Function]bool) {
+	if seen[fn] {
+		return
+	}
+	seen[fn] = true
+	s := u.sum[fn]
+	if s == nil {
+		return
+	}
+	p, r := u.m.p, u.m.r
+	const rule = "B-known"
+	for _, ev := range s.events {
+		if ev.callee == nil {
+			continue
+		}
+		cs := u.sum[ev.callee]
+		if ev.clean {
+			u.report(ev.callee, seen)
+			continue
+		}
+		if ev.guarded && len(ev.pinned) > 0 {
+			for _, prm := range ev.pinned {
+				r.OK(rule, FuncKey(fn)+"#"+prm+"=false", p.Pos(ev.pos), fmt.Sprintf("%s calls %s with the allow-all parameter %s constant false", FuncKey(fn), FuncKey(ev.callee), prm))
+			}
+		} else if ev.guarded && cs != nil && cs.always != nil {
+			r.OK(rule, FuncKey(fn)+"#"+ev.callee.Name()+"-guard", p.Pos(ev.pos), fmt.Sprintf("the fall-back to %s is reached only on the true edge of an allow-all parameter (pinned to false on the way from ParseKnown) or of a testRefType lookup", FuncKey(ev.callee)))
+		}
+		u.report(ev.callee, seen)
 	}
 }
 
@@ -1558,7 +2264,9 @@ func (m *c20Model) isFieldLoad(v ssa.Value, field string) (meta ssa.Value, ok bo
 func c20RuleLen(m *c20Model) {
 	p, r := m.p, m.r
 	const rule = "B-len"
-	r.Floor(rule, 4)
+	// today 4 (parse, ParseBytes, RefFromHash, UnmarshalBinary); one less when two
+	// entry points come to share the function that holds the call
+	r.Floor(rule, 3)
 	for _, fn := range m.fns {
 		for _, c := range CallsIn(fn, false) {
 			cc := c.Common()
@@ -1582,48 +2290,298 @@ func c20RuleLen(m *c20Model) {
 			}
 			construct := FuncKey(fn) + "#" + fld
 			site := p.Pos(c.Pos())
-			ok := false
-			for _, f := range FactsAt(c.Block()) {
-				bo, isB := f.Cond.(*ssa.BinOp)
-				if !isB || !((bo.Op == token.NEQ && !f.Val) || (bo.Op == token.EQL && f.Val)) {
-					continue
-				}
-				for _, pr := range [][2]ssa.Value{{bo.X, bo.Y}, {bo.Y, bo.X}} {
-					x, isLen := c20LenOf(pr[0])
-					if !isLen || !(x == arg || sameOrigin(x, arg)) {
-						continue
-					}
-					if m.isSizeExpr(pr[1], meta, mult) {
-						ok = true
-					}
-				}
-			}
-			if ok {
-				r.OK(rule, construct, site, fmt.Sprintf("call through digestMeta.%s is dominated by len(arg) = %d·size of the same meta", fld, mult))
+			q := c20LenQ{arg: arg, meta: meta, mult: mult}
+			if how, ok := m.lenFactAt(c.Block(), fn, q, 0); ok {
+				r.OK(rule, construct, site, fmt.Sprintf("call through digestMeta.%s: len(arg) = %d·size of the same meta (%s)", fld, mult, how))
 				continue
 			}
-			if fld == "ctor" && m.sumOfSelectingHash(arg, meta) {
-				r.OK(rule, construct, site, "argument is h.Sum(…) of the hash whose (reflect type, h.Size()) selected the meta in metaFromType; B-type ties that size to the meta's")
-				continue
-			}
-			r.Violation(rule, construct, site, fmt.Sprintf("the constructor digestMeta.%s is called without a dominating check that the input has exactly %d·size %s of the same meta: the FromHex loop indexes the digest array by the input length (panic on long input, zero-padded short digests accepted), FromBinary panics", fld, mult, map[int64]string{1: "bytes", 2: "hex digits"}[mult]))
+			r.Violation(rule, construct, site, fmt.Sprintf("the constructor digestMeta.%s is called without a dominating check that the input has exactly %d·size %s of the same meta (looked for in this function, in length-checking helpers it calls, and - if it is an unexported helper - at every one of its call sites): the FromHex loop indexes the digest array by the input length (panic on long input, zero-padded short digests accepted), FromBinary panics", fld, mult, map[int64]string{1: "bytes", 2: "hex digits"}[mult]))
 		}
 	}
 }
 
-// isSizeExpr: v is `meta.size` (mult 1) or `meta.size*2` / `2*meta.size` (mult 2).
-func (m *c20Model) isSizeExpr(v ssa.Value, meta ssa.Value, mult int64) bool {
-	if mult == 1 {
+// c20LenQ: the question "is len(arg) = mult·meta.size known here", with the
+// values arg / lenv (an integer known to be len(arg)) / meta of one function.
+type c20LenQ struct {
+	arg, lenv, meta ssa.Value
+	mult            int64
+}
+
+func (q c20LenQ) isLen(v ssa.Value) bool {
+	if x, ok := c20LenOf(v); ok && q.arg != nil && (x == q.arg || sameOrigin(x, q.arg)) {
+		return true
+	}
+	return q.lenv != nil && (v == q.lenv || sameOrigin(v, q.lenv))
+}
+
+func (q c20LenQ) isMeta(v ssa.Value) bool {
+	// strictly the same value (no "one incoming edge of a phi" leniency: the size
+	// must be that of the very meta whose constructor is called)
+	return q.meta != nil && (v == q.meta || originValue(v) == originValue(q.meta))
+}
+
+// into translates the question to the parameters of callee at a call with the
+// given arguments (ok=false when the meta is not handed over, or neither the
+// text nor its length is).
+func (q c20LenQ) into(callee *ssa.Function, args []ssa.Value) (c20LenQ, bool) {
+	out := c20LenQ{mult: q.mult}
+	if len(args) != len(callee.Params) {
+		return out, false
+	}
+	for i, a := range args {
+		switch {
+		case q.isMeta(a):
+			out.meta = callee.Params[i]
+		case q.arg != nil && (a == q.arg || sameOrigin(a, q.arg)):
+			out.arg = callee.Params[i]
+		case q.isLen(a):
+			out.lenv = callee.Params[i]
+		}
+	}
+	return out, out.meta != nil && (out.arg != nil || out.lenv != nil)
+}
+
+// outOf translates the question about parameters of fn to the arguments of one
+// of its call sites.
+func (q c20LenQ) outOf(fn *ssa.Function, args []ssa.Value) (c20LenQ, bool) {
+	out := c20LenQ{mult: q.mult}
+	if len(args) != len(fn.Params) {
+		return out, false
+	}
+	idx := func(v ssa.Value) int {
+		if v == nil {
+			return -1
+		}
+		o := originValue(v)
+		for i, prm := range fn.Params {
+			if o == ssa.Value(prm) || v == ssa.Value(prm) {
+				return i
+			}
+		}
+		return -1
+	}
+	if i := idx(q.meta); i >= 0 {
+		out.meta = args[i]
+	}
+	if i := idx(q.arg); i >= 0 {
+		out.arg = args[i]
+	}
+	if i := idx(q.lenv); i >= 0 {
+		out.lenv = args[i]
+	}
+	return out, out.meta != nil && (out.arg != nil || out.lenv != nil)
+}
+
+// lenFactAt: the length fact q is known at entry of block b of fn, from the
+// branch conditions dominating b (comparisons, length-checking helpers) or,
+// when fn is an unexported helper that is only ever called, from the facts at
+// every one of its call sites (recursively, c20EffDepth deep).
+func (m *c20Model) lenFactAt(b *ssa.BasicBlock, fn *ssa.Function, q c20LenQ, depth int) (string, bool) {
+	for _, f := range FactsAt(b) {
+		if how, ok := m.condImpliesLen(f.Cond, f.Val, q, 0); ok {
+			return how, true
+		}
+	}
+	if q.mult == 1 && m.sumOfSelectingHash(q.arg, q.meta) {
+		return "argument is h.Sum(…) of the hash whose (reflect type, h.Size()) selected the meta in metaFromType; B-type ties that size to the meta's", true
+	}
+	if depth >= c20EffDepth {
+		return "", false
+	}
+	sites, closed := m.callSitesOf(fn)
+	if !closed {
+		return "", false
+	}
+	for _, cs := range sites {
+		cq, ok := q.outOf(fn, cs.Common().Args)
+		if !ok {
+			return "", false
+		}
+		if _, ok := m.lenFactAt(cs.Block(), cs.Fn, cq, depth+1); !ok {
+			return "", false
+		}
+	}
+	return fmt.Sprintf("established at all %d call site(s) of the helper %s", len(sites), FuncKey(fn)), true
+}
+
+// condImpliesLen: cond == val implies len(arg) = mult·meta.size.
+func (m *c20Model) condImpliesLen(cond ssa.Value, val bool, q c20LenQ, depth int) (string, bool) {
+	if depth > 3 {
+		return "", false
+	}
+	switch x := cond.(type) {
+	case *ssa.UnOp:
+		if x.Op == token.NOT {
+			return m.condImpliesLen(x.X, !val, q, depth+1)
+		}
+	case *ssa.BinOp:
+		if !((x.Op == token.NEQ && !val) || (x.Op == token.EQL && val)) {
+			return "", false
+		}
+		for _, pr := range [][2]ssa.Value{{x.X, x.Y}, {x.Y, x.X}} {
+			if q.isLen(pr[0]) && m.isSizeExpr(pr[1], q, 0) {
+				return "comparison in the same function", true
+			}
+			// err == nil of a checking helper
+			if IsNilConst(pr[1]) {
+				if how, ok := m.helperImpliesLen(pr[0], q, depth); ok {
+					return how, true
+				}
+			}
+		}
+	case *ssa.Call, *ssa.Extract:
+		if val {
+			return m.helperImpliesLen(cond, q, depth)
+		}
+	}
+	return "", false
+}
+
+// helperImpliesLen: v is the boolean result (true = fine) or the error result
+// (nil = fine) of a package-local helper every one of whose "fine" returns is
+// itself the length comparison or is dominated by it, for the parameters that
+// the text (or its length) and the meta are passed as.
+func (m *c20Model) helperImpliesLen(v ssa.Value, q c20LenQ, depth int) (string, bool) {
+	idx := 0
+	if ex, ok := v.(*ssa.Extract); ok {
+		idx, v = ex.Index, ex.Tuple
+	}
+	call, ok := v.(*ssa.Call)
+	if !ok {
+		return "", false
+	}
+	cal := m.localCallee(call.Parent(), call)
+	if cal == nil {
+		return "", false
+	}
+	hq, ok := q.into(cal, call.Call.Args)
+	if !ok {
+		return "", false
+	}
+	res := cal.Signature.Results()
+	if idx >= res.Len() {
+		return "", false
+	}
+	n := 0
+	switch {
+	case isErrorType(res.At(idx).Type()) && idx == ErrResultIndex(cal):
+		for _, nr := range MaybeNilErrorReturns(cal) {
+			n++
+			at := nr.From
+			if at == nil {
+				at = nr.Ret.Block()
+			}
+			if _, ok := m.lenFactAt(at, cal, hq, c20EffDepth); !ok {
+				return "", false
+			}
+		}
+	default:
+		bt, isB := res.At(idx).Type().Underlying().(*types.Basic)
+		if !isB || bt.Kind() != types.Bool {
+			return "", false
+		}
+		for _, ri := range Returns(cal) {
+			if idx >= len(ri.Results) {
+				return "", false
+			}
+			type edge struct {
+				v  ssa.Value
+				at *ssa.BasicBlock
+			}
+			edges := []edge{{ri.Results[idx], ri.Ret.Block()}}
+			if ph, ok := ri.Results[idx].(*ssa.Phi); ok && ph.Block() == ri.Ret.Block() {
+				edges = nil
+				for i, e := range ph.Edges {
+					edges = append(edges, edge{e, ph.Block().Preds[i]})
+				}
+			}
+			for _, e := range edges {
+				if c, ok := e.v.(*ssa.Const); ok && c.Value != nil && c.Value.Kind() == constant.Bool && !constant.BoolVal(c.Value) {
+					continue
+				}
+				n++
+				if _, ok := m.condImpliesLen(e.v, true, hq, depth+1); ok {
+					continue
+				}
+				if _, ok := m.lenFactAt(e.at, cal, hq, c20EffDepth); ok {
+					continue
+				}
+				return "", false
+			}
+		}
+	}
+	if n == 0 {
+		return "", false
+	}
+	return "verdict of the length-checking helper " + FuncKey(cal), true
+}
+
+// isSizeExpr: v is `meta.size` (mult 1) or `meta.size*2` / `2*meta.size`
+// (mult 2), written out or returned by a package-local helper of the meta.
+func (m *c20Model) isSizeExpr(v ssa.Value, q c20LenQ, depth int) bool {
+	if depth > 2 {
+		return false
+	}
+	if ld, ok := v.(*ssa.UnOp); ok && ld.Op == token.MUL {
+		if _, isField := ld.X.(*ssa.FieldAddr); !isField {
+			if o := originValue(v); o != v {
+				return m.isSizeExpr(o, q, depth+1)
+			}
+		}
+	}
+	if call, ok := v.(*ssa.Call); ok {
+		cal := m.localCallee(call.Parent(), call)
+		if cal == nil {
+			return false
+		}
+		hq := c20LenQ{mult: q.mult}
+		if len(call.Call.Args) != len(cal.Params) {
+			return false
+		}
+		for i, a := range call.Call.Args {
+			if q.isMeta(a) {
+				hq.meta = cal.Params[i]
+			}
+		}
+		if hq.meta == nil {
+			return false
+		}
+		n := 0
+		for _, ri := range Returns(cal) {
+			if len(ri.Results) != 1 || !m.isSizeExpr(ri.Results[0], hq, depth+1) {
+				return false
+			}
+			n++
+		}
+		return n > 0
+	}
+	if q.mult == 1 {
 		mv, ok := m.isFieldLoad(v, "size")
-		return ok && mv == meta
+		return ok && q.isMeta(mv)
 	}
 	bo, ok := v.(*ssa.BinOp)
-	if !ok || bo.Op != token.MUL {
+	if !ok {
+		return false
+	}
+	if bo.Op == token.ADD {
+		// size + size
+		a, okA := m.isFieldLoad(bo.X, "size")
+		b, okB := m.isFieldLoad(bo.Y, "size")
+		return q.mult == 2 && okA && okB && q.isMeta(a) && q.isMeta(b)
+	}
+	if bo.Op == token.SHL {
+		if mv, ok := m.isFieldLoad(bo.X, "size"); ok && q.isMeta(mv) {
+			n, ok := ConstInt(bo.Y)
+			return ok && q.mult == 2 && n == 1
+		}
+		return false
+	}
+	if bo.Op != token.MUL {
 		return false
 	}
 	for _, pr := range [][2]ssa.Value{{bo.X, bo.Y}, {bo.Y, bo.X}} {
-		if mv, ok := m.isFieldLoad(pr[0], "size"); ok && mv == meta {
-			if n, ok := ConstInt(pr[1]); ok && n == mult {
+		if mv, ok := m.isFieldLoad(pr[0], "size"); ok && q.isMeta(mv) {
+			if n, ok := ConstInt(pr[1]); ok && n == q.mult {
 				return true
 			}
 		}
@@ -1633,16 +2591,54 @@ func (m *c20Model) isSizeExpr(v ssa.Value, meta ssa.Value, mult int64) bool {
 
 // sumOfSelectingHash: arg is h.Sum(..) and meta is metaFromType[{TypeOf(h), h.Size()}].
 func (m *c20Model) sumOfSelectingHash(arg, meta ssa.Value) bool {
-	call, ok := arg.(*ssa.Call)
+	if arg == nil || meta == nil {
+		return false
+	}
+	call, ok := originValue(arg).(*ssa.Call)
 	if !ok || !call.Call.IsInvoke() || call.Call.Method.Name() != "Sum" {
 		return false
 	}
-	h := call.Call.Value
-	ex, ok := meta.(*ssa.Extract)
-	if !ok || ex.Index != 0 {
+	return m.metaSelectedBy(originValue(meta), call.Call.Value, 0)
+}
+
+// metaSelectedBy: meta is the value of metaFromType[{reflect.TypeOf(h), h.Size()}],
+// looked up here or by a package-local helper that is given h and returns
+// exactly that.
+func (m *c20Model) metaSelectedBy(meta, h ssa.Value, depth int) bool {
+	if depth > 2 {
 		return false
 	}
-	lk, ok := ex.Tuple.(*ssa.Lookup)
+	var tuple ssa.Value = meta
+	if ex, ok := meta.(*ssa.Extract); ok {
+		if ex.Index != 0 {
+			return false
+		}
+		tuple = ex.Tuple
+	}
+	if call, ok := tuple.(*ssa.Call); ok {
+		cal := m.localCallee(call.Parent(), call)
+		if cal == nil || len(call.Call.Args) != len(cal.Params) {
+			return false
+		}
+		var hp ssa.Value
+		for i, a := range call.Call.Args {
+			if a == h || sameOrigin(a, h) {
+				hp = cal.Params[i]
+			}
+		}
+		if hp == nil {
+			return false
+		}
+		n := 0
+		for _, ri := range Returns(cal) {
+			if len(ri.Results) == 0 || !m.metaSelectedBy(originValue(ri.Results[0]), hp, depth+1) {
+				return false
+			}
+			n++
+		}
+		return n > 0
+	}
+	lk, ok := tuple.(*ssa.Lookup)
 	if !ok || !c20IsLoadOf(lk.X, m.gType) {
 		return false
 	}
@@ -1657,10 +2653,10 @@ func (m *c20Model) sumOfSelectingHash(arg, meta ssa.Value) bool {
 		}
 		switch x := vs[0].(type) {
 		case *ssa.Call:
-			if x.Call.IsInvoke() && x.Call.Method.Name() == "Size" && x.Call.Value == h {
+			if x.Call.IsInvoke() && x.Call.Method.Name() == "Size" && (x.Call.Value == h || sameOrigin(x.Call.Value, h)) {
 				sizeOK = true
 			}
-			if (CallSite{x.Parent(), x}).IsStatic("reflect", "", "TypeOf") && originValue(x.Call.Args[0]) == h {
+			if (CallSite{x.Parent(), x}).IsStatic("reflect", "", "TypeOf") && (originValue(x.Call.Args[0]) == h || sameOrigin(x.Call.Args[0], h)) {
 				typeOK = true
 			}
 		}
@@ -1676,25 +2672,82 @@ func c20RuleDefault(m *c20Model) {
 	const rule = "B-default"
 	r.Floor(rule, 1)
 	nh := p.Func(c20Pkg, "", "NewHash")
-	for _, ri := range Returns(nh) {
-		site := p.Pos(ri.Ret.Pos())
-		call, ok := originValue(ri.Results[0]).(*ssa.Call)
-		if !ok || call.Call.StaticCallee() == nil {
-			r.Undecided(rule, FuncKey(nh)+"#family", site, "NewHash does not return the result of a direct constructor call")
-			continue
-		}
-		cal := call.Call.StaticCallee()
-		var fam *c20Fam
-		for _, f := range m.fams {
-			if f.newFn == cal {
-				fam = f
+	key := FuncKey(nh) + "#family"
+	// the constructor calls whose result NewHash returns, through package-local helpers
+	type leaf struct {
+		call *ssa.Call
+		in   *ssa.Function
+	}
+	var leaves []leaf
+	und := ""
+	var follow func(fn *ssa.Function, depth int)
+	follow = func(fn *ssa.Function, depth int) {
+		for _, ri := range Returns(fn) {
+			if len(ri.Results) == 0 {
+				und = FuncKey(fn) + " returns nothing"
+				continue
+			}
+			vs := []ssa.Value{originValue(ri.Results[0])}
+			if ph, ok := vs[0].(*ssa.Phi); ok {
+				vs = nil
+				for _, e := range ph.Edges {
+					vs = append(vs, originValue(e))
+				}
+			}
+			for _, v := range vs {
+				if ex, ok := v.(*ssa.Extract); ok && ex.Index == 0 {
+					v = ex.Tuple
+				}
+				call, ok := v.(*ssa.Call)
+				if !ok {
+					und = fmt.Sprintf("%s does not return the result of a constructor call (%T)", FuncKey(fn), v)
+					continue
+				}
+				if cal := m.localCallee(fn, call); cal != nil && depth < c20EffDepth {
+					follow(cal, depth+1)
+					continue
+				}
+				leaves = append(leaves, leaf{call, fn})
 			}
 		}
-		if fam == nil {
-			r.Violation(rule, FuncKey(nh)+"#family", site, fmt.Sprintf("NewHash returns %s(), which is not the newHash of any metaFromString family: RefFromString/RefFromBytes/RefFromHash panic ('Currently-unsupported hash type') or name the blob after another family", FuncKeyAny(cal)))
+	}
+	follow(nh, 0)
+	if und != "" || len(leaves) == 0 {
+		if und == "" {
+			und = "NewHash never returns"
+		}
+		r.Undecided(rule, key, p.Pos(nh.Pos()), "NewHash does not return the result of a direct constructor call: "+und)
+		return
+	}
+	for _, lf := range leaves {
+		site := p.Pos(lf.call.Pos())
+		var fam *c20Fam
+		what := ""
+		if cal := lf.call.Call.StaticCallee(); cal != nil {
+			what = FuncKeyAny(cal) + "()"
+			for _, f := range m.fams {
+				if f.newFn == cal {
+					fam = f
+				}
+			}
+		} else if mv, ok := m.isFieldLoad(lf.call.Call.Value, "newHash"); ok && !lf.call.Call.IsInvoke() {
+			// <family meta>.newHash()
+			what = "the newHash field of a digestMeta"
+			if al := m.metaIdentity(mv); al != nil {
+				if f := m.byMeta[al]; f != nil && f.meta == al {
+					fam = f
+					what = "the newHash constructor of the digestMeta of " + f.name
+				}
+			}
+		} else {
+			r.Undecided(rule, key, site, "NewHash returns the result of a dynamic call the analysis cannot resolve")
 			continue
 		}
-		r.OK(rule, FuncKey(nh)+"#family", site, fmt.Sprintf("the recommended hash %s() is the constructor of family %q", FuncKeyAny(cal), fam.name))
+		if fam == nil {
+			r.Violation(rule, key, site, fmt.Sprintf("NewHash returns %s, which is not the newHash of any metaFromString family: RefFromString/RefFromBytes/RefFromHash panic ('Currently-unsupported hash type') or name the blob after another family", what))
+			continue
+		}
+		r.OK(rule, key, site, fmt.Sprintf("the recommended hash %s is the constructor of family %q", what, fam.name))
 	}
 }
 
@@ -1722,6 +2775,7 @@ type c20Interp struct {
 	steps  int
 	stores map[int64][]c20V // root pointer argument → values stored through it
 	tuples map[ssa.Value][]c20V
+	free   map[*ssa.FreeVar]c20V // captured variables of the function literal being evaluated
 }
 
 func c20IntKind(t types.Type) (bits int, signed bool, ok bool) {
@@ -1938,6 +2992,10 @@ func (x *c20Interp) call(fn *ssa.Function, args []c20V, depth int) ([]c20V, erro
 			return cv, err
 		case *ssa.Global:
 			return c20V{k: 'g', g: t, i: -1}, nil
+		case *ssa.FreeVar:
+			if r, ok := x.free[t]; ok {
+				return r, nil
+			}
 		}
 		if r, ok := env[v]; ok {
 			return r, nil
@@ -2713,7 +3771,23 @@ func (m *c20Model) evalDecoder(g *ssa.Function, k int, call ssa.CallInstruction,
 	}
 	okIdx := -1
 	rs := g.Signature.Results()
+	// a function literal that captures the caller's bad-digit flag: the captured
+	// variable plays the part of the flag parameter
+	var flagFV *ssa.FreeVar
 	if flag < 0 {
+		if mc, ok := originValue(cc.Value).(*ssa.MakeClosure); ok && mc.Fn == ssa.Value(g) {
+			for i, fv := range g.FreeVars {
+				if c20IsBoolPtr(fv.Type()) && flagFV == nil && i < len(mc.Bindings) {
+					flagFV = fv
+					flag = len(g.Params) + i
+					src.cell = mc.Bindings[i]
+				}
+			}
+		}
+	}
+	if flagFV != nil {
+		// reported through the captured flag
+	} else if flag < 0 {
 		if rs.Len() == 2 {
 			if b, ok := rs.At(1).Type().Underlying().(*types.Basic); ok && b.Kind() == types.Bool {
 				okIdx = 1
@@ -2778,6 +3852,9 @@ func (m *c20Model) evalDecoder(g *ssa.Function, k int, call ssa.CallInstruction,
 		}
 		args[k] = c20V{k: 'i', i: cv}
 		x := &c20Interp{m: m, stores: map[int64][]c20V{}, tuples: map[ssa.Value][]c20V{}}
+		if flagFV != nil {
+			x.free = map[*ssa.FreeVar]c20V{flagFV: {k: 'p', i: int64(flag)}}
+		}
 		out, err := x.call(g, args, 0)
 		if err != nil {
 			d.err = fmt.Sprintf("for byte %#02x: %v", n, err)
@@ -3352,12 +4429,39 @@ func c20CharName(c int) string {
 func c20RuleHex(m *c20Model) {
 	p, r := m.p, m.r
 	const rule = "B-hex"
-	r.Floor(rule, 18)
+	// the obligations that exist however the digit loops are factored: the table of
+	// the text form, ctors/ctorb alphabet of 3 families, 3 built-by-constructors,
+	// the unknown-hash parser, the pattern (12); today 24 with the 10 functions
+	// that hold digit loops of their own
+	r.Floor(rule, 12)
 
-	// (1) the reference writer: Ref.appendString (String, StringMinusOne, MarshalJSON all go through it)
-	as := p.Func(c20Pkg, "Ref", "appendString")
-	sites, und, soft := m.emitSites(as)
-	und = append(und, soft...)
+	// (1) the reference writer: Ref.String, i.e. whichever package-local function of
+	// its effective body (today appendString, shared with StringMinusOne and
+	// MarshalJSON) turns the nibbles into characters
+	str := p.Func(c20Pkg, "Ref", "String")
+	var sites []c20Emit
+	var und, helperSoft []string
+	refFn := map[*ssa.Function]bool{}
+	for i, fn := range m.effBody(str, false) {
+		ss, u, soft := m.emitSites(fn)
+		sites = append(sites, ss...)
+		und = append(und, u...)
+		if i == 0 || len(ss) > 0 {
+			und = append(und, soft...)
+		} else {
+			helperSoft = append(helperSoft, soft...)
+		}
+		if len(ss) > 0 {
+			refFn[fn] = true
+		}
+	}
+	as := str
+	if len(refFn) == 1 {
+		for fn := range refFn {
+			as = TopFunc(fn)
+		}
+	}
+	m.hexFn = as
 	var E [16]byte
 	haveHi, haveLo, agree := false, false, true
 	for _, s := range sites {
@@ -3372,13 +4476,17 @@ func c20RuleHex(m *c20Model) {
 	asKey := FuncKey(as) + "#digit-table"
 	switch {
 	case len(und) > 0:
-		r.Undecided(rule, asKey, p.Pos(as.Pos()), "cannot read how appendString turns digest bytes into characters: "+strings.Join(und, "; "))
+		r.Undecided(rule, asKey, p.Pos(as.Pos()), "cannot read how the text form (Ref.String and the package-local functions it is built from) turns digest bytes into characters: "+strings.Join(und, "; "))
 		return
 	case !haveHi || !haveLo:
-		r.Undecided(rule, asKey, p.Pos(as.Pos()), "appendString contains no place where both nibbles of a digest byte select a character from a constant table (or a known standard-library hex encoder); the digit alphabet of the text form cannot be extracted")
+		more := ""
+		if len(helperSoft) > 0 {
+			more = " (" + strings.Join(helperSoft, "; ") + ")"
+		}
+		r.Undecided(rule, asKey, p.Pos(as.Pos()), "Ref.String and the package-local functions it calls contain no place where both nibbles of a digest byte select a character from a constant table (or a known standard-library hex encoder); the digit alphabet of the text form cannot be extracted"+more)
 		return
 	case !agree:
-		r.Violation(rule, asKey, p.Pos(as.Pos()), "appendString prints the two nibbles of a byte with different digit tables")
+		r.Violation(rule, asKey, p.Pos(as.Pos()), "the text form prints the nibbles of a byte with different digit tables")
 		return
 	}
 	inE := map[byte]int{}
@@ -3394,7 +4502,10 @@ func c20RuleHex(m *c20Model) {
 	r.OKTable(rule, asKey, p.Pos(as.Pos()), fmt.Sprintf("the text form prints nibble n of every digest byte as %q[n], high nibble first (%s)", string(E[:]), sites[0].what))
 
 	// (2) every other writer / digit-by-digit comparer in the package uses the same table
-	seenFn := map[*ssa.Function]bool{as: true}
+	seenFn := map[*ssa.Function]bool{}
+	for fn := range refFn {
+		seenFn[fn] = true
+	}
 	var others []*ssa.Function
 	for _, fn := range m.fns {
 		if !seenFn[fn] {
@@ -3431,7 +4542,7 @@ func c20RuleHex(m *c20Model) {
 				bad = fmt.Sprintf("line %d uses %s, which maps nibbles to %q, but String() prints them with %q: what this function writes or compares digit by digit is not the text form of the ref", p.Fset.Position(s.pos).Line, s.what, string(s.e[:]), string(E[:]))
 			}
 		}
-		r.Check(bad == "", rule, key, site, fmt.Sprintf("%d nibble→character site(s), all with the table of appendString", len(ss)), bad)
+		r.Check(bad == "", rule, key, site, fmt.Sprintf("%d nibble→character site(s), all with the table of the text form", len(ss)), bad)
 	}
 
 	// (3) readers
@@ -3555,21 +4666,66 @@ func c20RuleHex(m *c20Model) {
 		}
 	}
 
-	pu := p.Func(c20Pkg, "", "parseUnknown")
-	textArg := -1
-	for i, prm := range pu.Params {
-		if b, ok := prm.Type().Underlying().(*types.Basic); ok && b.Kind() == types.String && NamedOf(prm.Type()) == nil {
-			if textArg >= 0 {
-				textArg = -2
-			} else {
-				textArg = i
+	// the functions that build refs of unsupported hash functions (today parseUnknown),
+	// found by what they do: they turn a digest type of no family into a digestType
+	var unkFns []*ssa.Function
+	seenUnk := map[*ssa.Function]bool{}
+	for _, fn := range m.fns {
+		for _, b := range fn.Blocks {
+			for _, in := range b.Instrs {
+				if m.isUnknownDigestSink(in) && !seenUnk[TopFunc(fn)] {
+					seenUnk[TopFunc(fn)] = true
+					unkFns = append(unkFns, TopFunc(fn))
+				}
 			}
 		}
 	}
-	if textArg < 0 {
-		r.Undecided(rule, FuncKey(pu)+"#alphabet", p.Pos(pu.Pos()), "cannot tell which parameter of parseUnknown is the digit text")
-	} else {
-		checkDecoders(FuncKey(pu)+"#alphabet", p.Pos(pu.Pos()), FuncKey(pu), m.textSummary(pu, textArg, 0), false)
+	plainStringParam := func(fn *ssa.Function) int {
+		textArg := -1
+		for i, prm := range fn.Params {
+			if b, ok := prm.Type().Underlying().(*types.Basic); ok && b.Kind() == types.String && NamedOf(prm.Type()) == nil {
+				if textArg >= 0 {
+					return -2
+				}
+				textArg = i
+			}
+		}
+		return textArg
+	}
+	// a function that only wraps the finished digest takes no text: the text is
+	// read by its callers
+	readers := map[*ssa.Function]bool{}
+	var order []*ssa.Function
+	var climb func(fn *ssa.Function, depth int) string
+	climb = func(fn *ssa.Function, depth int) string {
+		if plainStringParam(fn) >= 0 {
+			if !readers[fn] {
+				readers[fn] = true
+				order = append(order, fn)
+			}
+			return ""
+		}
+		sites, closed := m.callSitesOf(fn)
+		if !closed || depth >= c20EffDepth {
+			return "cannot tell which parameter of " + FuncKey(fn) + ", which builds refs of unsupported hash functions, is the digit text"
+		}
+		for _, cs := range sites {
+			if why := climb(TopFunc(cs.Fn), depth+1); why != "" {
+				return why
+			}
+		}
+		return ""
+	}
+	for _, pu := range unkFns {
+		if why := climb(pu, 0); why != "" {
+			r.Undecided(rule, FuncKey(pu)+"#alphabet", p.Pos(pu.Pos()), why)
+		}
+	}
+	for _, pu := range order {
+		checkDecoders(FuncKey(pu)+"#alphabet", p.Pos(pu.Pos()), FuncKey(pu), m.textSummary(pu, plainStringParam(pu), 0), false)
+	}
+	if len(unkFns) == 0 {
+		r.OKTable(rule, c20Pkg+"#unknown-alphabet", "?", "no function of the package builds refs of unsupported hash functions")
 	}
 
 	// (4) blob.Pattern recognises every printed digit
@@ -3676,6 +4832,206 @@ func (m *c20Model) pkgCallGraph() (callers map[*ssa.Function]map[*ssa.Function]b
 	}
 	m.cgCallers, m.cgValueUse = callers, valueUse
 	return
+}
+
+// ---------------------------------------------------------------------------
+// effective bodies
+//
+// A rule that asks "does F do X" must not depend on how F is cut into
+// functions. The effective body of F is F, the function literals inside it,
+// and - transitively, up to c20EffDepth calls deep - the package-local
+// functions, methods, generic instances and literals it calls statically.
+// Rules that look for a site (a constant written, a table lookup, a search for
+// the separator) look for it in the effective body; rules about a value (the
+// text parameter) follow the value into the helpers' parameters (flowSet);
+// rules about dominating facts carry the facts across the call (B-len, B-text).
+
+const c20EffDepth = 4
+
+// localCallee: the package-local function with a body that the call
+// instruction calls statically (a literal bound to a local included).
+func (m *c20Model) localCallee(fn *ssa.Function, ci ssa.CallInstruction) *ssa.Function {
+	cal := CallSite{fn, ci}.Callee()
+	if cal == nil || cal.Blocks == nil || !m.inPkg(cal) {
+		return nil
+	}
+	return cal
+}
+
+// c20Exported: fn is (an instance of) an exported package-level function or an
+// exported method, i.e. an entry point with a contract of its own.
+func c20Exported(fn *ssa.Function) bool {
+	o := c20Origin(fn)
+	if o.Parent() != nil {
+		return false
+	}
+	obj := o.Object()
+	return obj != nil && obj.Exported()
+}
+
+// effBody lists the functions of the effective body of root, root first.
+// exported: also follow calls of exported package functions (rules that must
+// find every way a function can reach something); otherwise only unexported
+// helpers count as part of root's body.
+func (m *c20Model) effBody(root *ssa.Function, exported bool) []*ssa.Function {
+	var out []*ssa.Function
+	seen := map[*ssa.Function]bool{}
+	var add func(fn *ssa.Function, depth int)
+	add = func(fn *ssa.Function, depth int) {
+		if fn == nil || seen[fn] || fn.Blocks == nil {
+			return
+		}
+		seen[fn] = true
+		out = append(out, fn)
+		for _, a := range fn.AnonFuncs {
+			add(a, depth)
+		}
+		if depth >= c20EffDepth {
+			return
+		}
+		for _, b := range fn.Blocks {
+			for _, in := range b.Instrs {
+				ci, ok := in.(ssa.CallInstruction)
+				if !ok {
+					continue
+				}
+				if cal := m.localCallee(fn, ci); cal != nil && (exported || !c20Exported(cal)) {
+					add(cal, depth+1)
+				}
+			}
+		}
+	}
+	add(root, 0)
+	return out
+}
+
+// flowSet: the values which, in the effective body of root, denote the value
+// start (typically a parameter of root): start itself, its conversions between
+// string, named string and byte slice, and the parameters of followed helpers
+// it is passed to. has() also sees through loads of single-store locals.
+type c20Flow struct{ set map[ssa.Value]bool }
+
+func (f *c20Flow) has(v ssa.Value) bool {
+	return v != nil && (f.set[v] || f.set[originValue(v)])
+}
+
+func (m *c20Model) flowSet(root *ssa.Function, start ssa.Value) *c20Flow {
+	fl := &c20Flow{set: map[ssa.Value]bool{start: true}}
+	body := m.effBody(root, false)
+	inBody := map[*ssa.Function]bool{}
+	for _, fn := range body {
+		inBody[fn] = true
+	}
+	for changed, round := true, 0; changed && round < 8; round++ {
+		changed = false
+		add := func(v ssa.Value) {
+			if !fl.set[v] {
+				fl.set[v] = true
+				changed = true
+			}
+		}
+		for _, fn := range body {
+			for _, b := range fn.Blocks {
+				for _, in := range b.Instrs {
+					switch x := in.(type) {
+					case *ssa.Convert:
+						if fl.has(x.X) && c20IsByteString(x.Type()) {
+							add(x)
+						}
+					case *ssa.ChangeType:
+						if fl.has(x.X) {
+							add(x)
+						}
+					case ssa.CallInstruction:
+						cal := m.localCallee(fn, x)
+						if cal == nil || !inBody[cal] {
+							continue
+						}
+						args := x.Common().Args
+						if len(args) != len(cal.Params) {
+							continue
+						}
+						for i, a := range args {
+							if fl.has(a) {
+								add(cal.Params[i])
+							}
+						}
+					}
+				}
+			}
+		}
+	}
+	return fl
+}
+
+// callSitesOf: the static calls of fn (or of any instance of its origin) from
+// the functions of the package; closed=false when fn may have callers the
+// analysis does not see (exported, used as a value, never called).
+func (m *c20Model) callSitesOf(fn *ssa.Function) (sites []CallSite, closed bool) {
+	o := c20Origin(fn)
+	_, valueUse := m.pkgCallGraph()
+	if c20Exported(fn) || valueUse[o] || fn.Parent() != nil {
+		return nil, false
+	}
+	for _, g := range m.fns {
+		for _, b := range g.Blocks {
+			for _, in := range b.Instrs {
+				ci, ok := in.(ssa.CallInstruction)
+				if !ok || ci.Common().IsInvoke() {
+					continue
+				}
+				if cal := ci.Common().StaticCallee(); cal != nil && cal == fn {
+					sites = append(sites, CallSite{g, ci})
+				}
+			}
+		}
+	}
+	return sites, len(sites) > 0
+}
+
+// c20AcceptCond: does taking the val edge of a branch on cond imply that an
+// accepted elementary condition held with its accepted value? Sees through
+// negation and through a short-circuit || / && whose value was hoisted into a
+// local (a phi of constants and elementary conditions).
+func c20AcceptCond(cond ssa.Value, val bool, pred func(cond ssa.Value, val bool) bool, depth int) bool {
+	if depth > 4 {
+		return false
+	}
+	if pred(cond, val) {
+		return true
+	}
+	switch x := cond.(type) {
+	case *ssa.UnOp:
+		if x.Op == token.NOT {
+			return c20AcceptCond(x.X, !val, pred, depth+1)
+		}
+	case *ssa.Phi:
+		// the phi is val only if some incoming edge carries val: every such edge
+		// must itself imply an accepted condition
+		for i, e := range x.Edges {
+			if c, ok := e.(*ssa.Const); ok && c.Value != nil && c.Value.Kind() == constant.Bool {
+				if constant.BoolVal(c.Value) != val {
+					continue // this edge cannot make the phi equal val
+				}
+				// constant val arriving from a predecessor: that predecessor must have
+				// branched here on an accepted condition
+				pb := x.Block().Preds[i]
+				ifi, _ := pb.Instrs[len(pb.Instrs)-1].(*ssa.If)
+				if ifi == nil || len(pb.Succs) != 2 || pb.Succs[0] == pb.Succs[1] {
+					return false
+				}
+				if !c20AcceptCond(ifi.Cond, pb.Succs[0] == x.Block(), pred, depth+1) {
+					return false
+				}
+				continue
+			}
+			if !c20AcceptCond(e, val, pred, depth+1) {
+				return false
+			}
+		}
+		return len(x.Edges) > 0
+	}
+	return false
 }
 
 // c20PrintSinks: standard-library functions that only print or wrap their
@@ -5251,13 +6607,16 @@ func c20RuleLess(m *c20Model) {
 	}
 
 	// the digit alphabet must be increasing for byte order = text order
-	as := p.Func(c20Pkg, "Ref", "appendString")
+	as := m.hexFn
+	if as == nil {
+		as = p.Func(c20Pkg, "Ref", "String")
+	}
 	key := FuncKey(as) + "#digit-order"
 	switch {
 	case !anyBytes:
 		r.OKTable(rule, key, p.Pos(as.Pos()), "no comparator decides by digest bytes (text forms are compared directly); the order of the digit characters does not matter")
 	case !m.hexEOK:
-		r.Undecided(rule, key, p.Pos(as.Pos()), "the comparators order refs by digest bytes, which agrees with the order of the text forms only if the digit table of appendString is increasing; the table could not be extracted (see B-hex)")
+		r.Undecided(rule, key, p.Pos(as.Pos()), "the comparators order refs by digest bytes, which agrees with the order of the text forms only if the digit table of the text form is increasing; the table could not be extracted (see B-hex)")
 	default:
 		bad := ""
 		for n := 1; n < 16; n++ {
